@@ -12,1001 +12,2835 @@ Definition show_fres (r : fres) : string :=
   end.
 Definition check (rs : list rune) : string := digest (show_fres (format_res rs)).
 Definition full (rs : list rune) : string := show_fres (format_res rs).
-Eval vm_compute in ("<<<M1848>>>" ++ check (runes_of_ascii "packet tag {
-    repeat T MetaDataX,
-    @calculatedFrom(""`tick`"")
-    @tag(007)
-    leftPad `tab	here`,
-    @tag(0123456789)
-    char x,
-    @tag(0)
-    u64 tag,
-    i8 roots,
-    @lengthOf(float)
-    @tag(10)
-    // c
+Eval vm_compute in ("<<<M4238>>>" ++ check (runes_of_ascii "
+packet
+
+    repeatCount{	// `tick` ""quote"" 'q'
+u 
+{ 
+  /// triple
+		repeat
+	char[] packetx  , x_y_z
+	{
+repeat Foo
+Z9_  , match
+	asx// " ++ [128512]%N ++ runes_of_ascii " emoji
+		as 
+Logon
+	{  1	:  stringy
+
+    ,  [  ""abc""
+,
+7 
+,""abc"", 10 ,
+""1"" 	 /// triple
+  ]	:
+
+    charz 
+,  }	,uint8x
+{MetaDataX
+roots
+
+    // packet A { u8 x, }
+  //x
+	,	// 50% %s
+		u8 
+pack @calculatedFrom(
+    ""\n"") 
+      // c
+
+	// @lengthOf(
+
+  ,
+	}
+,
+	x  body , 
+    // " ++ [27880; 37322]%N ++ runes_of_ascii "
+    	}
+
+,
+},
+
+@lengthOf( tag
+	)asx	/// triple
+,
+    zchar[
+00 ] x_y_z
+	@calculatedFrom(
+	""\" ++ [233]%N ++ runes_of_ascii """
+
+)	// trailing space 
+	`tab	here`
+    ,
+    @calculatedFrom(""CRC32"" 
+)
+
+    int32
+	// @lengthOf(
+	// @lengthOf(
+	A
+, 
+@calculatedFrom(
+""it's""
+)  @leftPad (
+' ')
+@rightPad
+    ('\x00'
+)
+
+match
+    leftPad as	roots
+
+{ [
+	255	,
+    007 
+        //	t
+    , 00 //
+
+, ""packet""
+    ] // " ++ [128512]%N ++ runes_of_ascii " emoji
+		:
+trueish  , // " ++ [27880; 37322]%N ++ runes_of_ascii "
+      },
+    @tag(3)
+
+    string
+	options1
+
+    @calculatedFrom(""`tick`""  )`100% of %d`  // trailing space 
+	,@leftPad	( 
+'\x00' )  string  uint8x
+, @leftPad	( 
+' ') 
+@calculatedFrom(""// no comment"" 
+)  // " ++ [27880; 37322]%N ++ runes_of_ascii "
+@tag( 
+00
+	)
+metadata  @calculatedFrom(
+	""1"" ),
+    } root packet a1
+    { chars
+
+    @calculatedFrom(	""\" ++ [233]%N ++ runes_of_ascii """
+) ,	@tag( 
+0123456789
+
+    // packet A { u8 x, }
+  )	repeatCount i64_
+	,repeat
+
+len{
+
+    repeat
+
+zchar[
+	255
+    ]
+
+A  `" ++ [233]%N ++ runes_of_ascii "` ,
+    string
+	calculatedFrom
+`100% of %d`
+    ,	f32  asx 
+,
+
+    },
+@leftPad (
+
+    ) uint64 crc `a\`
+	, @tag( 0123456789 
+    // 50% %s
+  )string  string_,  T {
+
+    char[ 255	]
+
+    T
+
+, }
+, calculatedFrom
+    string_  ,
+}
+MetaData
+
+    leftPad
+	{o
+f32a
+    ,  
+      //	t
+	//	t
+} 
+MetaData
+
+lengthOf  {
+    string charz
+	,
+
+u64  len`{ , }`
+	    //x
+    	//	t
+  , u16
+
+    T
+`tab	here`
+,
+char[] Foo ,  }
+	packet
+f32a 
     // `tick` ""quote"" 'q'
-    body {
-        chars {
-            repeat int8 body,
-        },
-        repeat Header {
-            char[] leftPad,
-        },
-        match Logon as zchar {
-            4294967296 : len,
-            ""a\""b"" : A,
-            //
-            00 : x_y_z,
-        },
-        repeat i16 options1,
-    },
-    @calculatedFrom(""" ++ [128512]%N ++ runes_of_ascii """)
-    @rightPad('0')
-    i16 Pad,//
-    int64 As @lengthOf(crc),
-}
+  	{
 
-MetaData x_y_z {
-    u crc,
-}
-
-root packet Z9_ {
-    @calculatedFrom(""{,}"")
-    tag,
-    @lengthOf(lengthOf)
-    zchar[42] crc `" ++ [233]%N ++ runes_of_ascii "`,
-    char[007] options1,
-}
-
-packet x {
-    char trueish,
-    char[] packetx @calculatedFrom(""" ++ [28040; 24687]%N ++ runes_of_ascii """) `line1
-        line2`,
-    zchar[1] Foo,
-    zchar[00] A,
-    match msg_type as tag {
-        """" : leftPad,
-        [""" ++ [128512]%N ++ runes_of_ascii """, 0, 10, 3] : Z9_,
-        ""it's"" : float,
-        10 : calculatedFrom,
-        ""x y"" : f32a,
-        007 : roots,
-    },
-}
-
-packet u {
-    // trailing space 
-    @calculatedFrom(""\n"")
-    @calculatedFrom(""a\""b"")
-    i64_ rootA,
-    match x as Logon {
-        1 : body,
-        ""a\\"" : _x,
-        ""packet"" : BodyLength,
-    },
-    //x
-    @rightPad('\x00')
-    @calculatedFrom(""" ++ [128512]%N ++ runes_of_ascii """)
-    repeat stringy {
-        match T as float {
-            ""a\\"" : len,
-            0 : BodyLength,
-            [""it's"", ""{,}"", 255, 0123456789, ""a\\""] : Logon,
-            3 : rootA,
-        },
-    },//
-    u16 uint8x `{ , }`,
-    // trailing space 
-    //x
-    @leftPad('0')
-    string i64_ @lengthOf(stringy),
+    match 
+string_ as
+	crc 
+  // @lengthOf(
     // `tick` ""quote"" 'q'
+
+  { 
+255: Z9_,
+    [  """ ++ [128512]%N ++ runes_of_ascii """
+,7	]
+
+    :
+leftPad
+, 
+    // trailing space 
+
+	""\n"" :float
+    """ ++ [233]%N ++ runes_of_ascii "t" ++ [233]%N ++ runes_of_ascii """  :f32a,
+}, repeat 
+u128 { string
+int 
+/// triple
+	//	t
+  @lengthOf(
+rootA  ),
+
+    },
+
+u ,
+
+    }
+")).
+Eval vm_compute in ("<<<M3993>>>" ++ check (runes_of_ascii "options { u128
+
+    = 
+	/// triple
+  /// triple
+  ""x y"";  Logon = '\x00'
+    Foo  //x
+=
+""CRC32""  // a // b
+  ;
+
+    } options { u
+    =	// a // b
+		""1""  ;u =
+	float64;Logon
+
+    = false ; } root
+packet
+Header
+    {  @tag(	0
+
+)	@lengthOf(
+	metadata	)
+
+    Pad { 
+T
+
+    @calculatedFrom(
+
+    ""// no comment""
+), 
+repeat
+
+char[  //	t
+  255 ]
+    metadata ``,
+} , @lengthOf(metadata ) 	 //
+repeat string	asx 
+`two words` , 
+        //
+  @tag(
+
+    1
+
+)As
+
+    {/// triple
+  tag 
+@lengthOf( 
+u8x
+    )
+,
+Z9_
+	`tab	here`
+
+    ,
+zchar[1
+// packet A { u8 x, }
+
+	] 
+string_// packet A { u8 x, }
+  	@calculatedFrom(
+    // " ++ [27880; 37322]%N ++ runes_of_ascii "
+  	// a // b
+    ""packet"") ,match 	 // a // b
+
+stringy
+as As
+    {
+""a\\"" :
+
+    metadata
+, [ ""abc"" ,
+    ""x y""  ]// trailing space 
+    	:
+Header 255	:
+    u  ,
+7  :
+
+    msg_type  [ 
+	// @lengthOf(
+	""x y"" ,
+    ""a\\""  //x
+    ,
+	10 
+	// c
+  // " ++ [128512]%N ++ runes_of_ascii " emoji
+	,
+
+""packet""
+]	: chars
+
+    } ,},@leftPad
+( 
+'\x00'  )i64_ {
+
+x
+`say ""hi""`,
+	} ,
+    repeat 
+Foo  {len  {match
+    u 
+as
+_x
+        // trailing space 
+  { 42  : tag 
+	    // c
+  // a // b
+,[	""" ++ [233]%N ++ runes_of_ascii "t" ++ [233]%N ++ runes_of_ascii """ ]
+
+    : 	 //x
+    _x	[
+	7  ,	// " ++ [128512]%N ++ runes_of_ascii " emoji
+	  4294967296
+
+]
+    :
+
+    Packet	// `tick` ""quote"" 'q'
+
+	, 	 //	t
+
+  }
+
+    ,
+
+float64
+
+o `a\`,
+	f32a  Pad `crlf
+line`
+	,  }
+
+, 
+
+    /// triple
+
+	} , match 
+options1 as
+	uint8x { 42  :
+    len
+    // " ++ [128512]%N ++ runes_of_ascii " emoji
+  ,255 :o, 255 :
+    Logon , 0 
+//
+  // a // b
+:	Header
+    // " ++ [128512]%N ++ runes_of_ascii " emoji
+,
+007 : msg_type,
+
+    } // @lengthOf(
+      ,
+	@rightPad (
+
+'\x00'
+    ) @calculatedFrom(""a\\""
+)@calculatedFrom( ""\" ++ [233]%N ++ runes_of_ascii """ )
+	repeat
+Foo 	 // `tick` ""quote"" 'q'
+  {char[ 
+    // 50% %s
+	00
+
+    ]rootA ,
+},
+
+repeat
+
+charz
+
+    T
+
+`" ++ [233]%N ++ runes_of_ascii "`
+, 
+string
+
+BodyLength 
+	// 50% %s
+,
+repeat	u128// packet A { u8 x, }
+  ,
+
+    }
+")).
+Eval vm_compute in ("<<<M1119>>>" ++ check (runes_of_ascii "packet
+Packet{string stringy
+    `two words` , } //
+packet roots{ @calculatedFrom( ""\n""  )
+match u8x as packetx
+// 50% %s
+// " ++ [128512]%N ++ runes_of_ascii " emoji
+{ 7 :
+/// triple
+// " ++ [27880; 37322]%N ++ runes_of_ascii "
+uint8x 65535
     // @lengthOf(
-    u64 leftPad @calculatedFrom(""a	b""),
-    repeat Header MetaDataX `a\`,
-    @lengthOf(stringy)
-    Packet leftPad,
-    @tag(00)
-    repeat zchar _x `tab	here`,
-    i32 matchKey,
-}")).
-Eval vm_compute in ("<<<M380>>>" ++ check (runes_of_ascii "options {
-    StringPrefixLenType = u16;
-    ArrayPrefixLenType = u16;
+    : int 1
+//	t
+// @lengthOf(
+:
+    //x
+    T
+    , ""{,}"" : Foo ,0123456789// " ++ [128512]%N ++ runes_of_ascii " emoji
+: Logon
+, [ 65535 ] :len
+    ,
+// " ++ [128512]%N ++ runes_of_ascii " emoji
+// " ++ [27880; 37322]%N ++ runes_of_ascii "
+} ,
+repeat
+lengthOf metadata // a // b
+, @calculatedFrom( """ ++ [233]%N ++ runes_of_ascii "t" ++ [233]%N ++ runes_of_ascii """) repeat /// triple
+zchar[
+65535
+] As
+    // @lengthOf(
+    `` // `tick` ""quote"" 'q'
+, char[7 //	t
+]
+    float @calculatedFrom( """"
+) ,float32
+a1`" ++ [233]%N ++ runes_of_ascii "` ,  i64
+    Pad
+    @lengthOf(
+BodyLength
+    )  `say ""hi""`
+// " ++ [128512]%N ++ runes_of_ascii " emoji
+// @lengthOf(
+, match
+    int as asx
+// " ++ [27880; 37322]%N ++ runes_of_ascii "
+// `tick` ""quote"" 'q'
+{ [ """ ++ [28040; 24687]%N ++ runes_of_ascii """ , 0
+    ]:
+    x_y_z  ,1:Packet , ""{,}"" :falsey , 255
+: charz ,// trailing space 
+[ ""{,}"" , // @lengthOf(
+0123456789
+    //
+    ] :
+    uint8x , },crc @calculatedFrom(
+""\" ++ [233]%N ++ runes_of_ascii """	) `it's`
+,// @lengthOf(
+match packetx as Pad{ ""packet"":BodyLength,
+} , @lengthOf( BodyLength
+) @tag( 00 )	@lengthOf( As )  match charz as len
+    { [ ""x y"" ]
+    : _x ""it's""
+: i64_ , 0123456789 : metadata
+""" ++ [128512]%N ++ runes_of_ascii """ :
+    trueish
+    // " ++ [128512]%N ++ runes_of_ascii " emoji
+    ,1
+    :	Logon,
+} , } MetaData _x//
+{crc calculatedFrom , char[ 1] stringy
+// packet A { u8 x, }
+//x
+,
+string BodyLength ,char[4294967296]  calculatedFrom`` ,string//x
+i8i8`100% of %d`,BodyLength //x
+MetaDataX, } options {uint8x =
+// packet A { u8 x, }
+//x
+int32 packetx =i32 ;lengthOf =
+char[] ;
+    Logon = string
+    ; }")).
+Eval vm_compute in ("<<<M4296>>>" ++ check (runes_of_ascii "  options{StringPrefixLenType
+    =u16
+;  ArrayPrefixLenType
+=	u16
+
+    ;
+    }	packet
+
+    SampleBinary	{  uint16 MsgType
+
+`" ++ [28040; 24687; 31867; 22411]%N ++ runes_of_ascii "`
+,
+    u16
+	BodyLenght 
+@lengthOf(Body) `" ++ [28040; 24687; 20307; 38271; 24230]%N ++ runes_of_ascii "` ,  match MsgType	as  Body	{	1
+:
+
+Logon  ,	2	:Logout, 3
+
+:Heartbeat ,
+
+4:
+RiskControlRequest,	5 
+:	RiskControlResponse
+,}
+, @calculatedFrom(
+""CRC32"" )u32	Ckecksum
+`" ++ [26657; 39564; 21644]%N ++ runes_of_ascii "` 
+,	}
+	packet
+Logon {  @leftPad (
+'0'
+) char[ 10
+	]
+
+    UserName
+	`" ++ [29992; 25143; 21517]%N ++ runes_of_ascii "`
+
+    , string
+	Password
+
+    `" ++ [23494; 30721]%N ++ runes_of_ascii "`
+,uint64
+ClientId`" ++ [23458; 25143; 31471]%N ++ runes_of_ascii "ID` 
+, u16
+HeartbeatInterval `" ++ [24515; 36339; 38388; 38548]%N ++ runes_of_ascii "`
+    ,
+}packet
+Logout
+	{ @rightPad
+
+    ('0')  char[
+
+10 ] UserName  `" ++ [29992; 25143; 21517]%N ++ runes_of_ascii "` 
+,
+	uint64 ClientId
+`" ++ [23458; 25143; 31471]%N ++ runes_of_ascii "ID` ,
 }
 
-packet SampleBinary {
-    uint16 MsgType `" ++ [28040; 24687; 31867; 22411]%N ++ runes_of_ascii "`,
-    u16 BodyLenght @lengthOf(Body) `" ++ [28040; 24687; 20307; 38271; 24230]%N ++ runes_of_ascii "`,
-    match MsgType as Body {
-        1 : Logon,
-        2 : Logout,
-        3 : Heartbeat,
-        4 : RiskControlRequest,
-        5 : RiskControlResponse,
+    packet
+Heartbeat
+    { 
+} packet
+
+RiskControlRequest
+{
+	string
+
+    UniqueOrderId
+	`" ++ [21807; 19968; 35746; 21333; 21495]%N ++ runes_of_ascii "`
+,	char[
+
+    16
+
+    ]
+	ClOrdID
+	`" ++ [23458; 25143; 35746; 21333; 21495]%N ++ runes_of_ascii "`
+    ,
+
+char[
+    3 ]
+MarketID  `" ++ [24066; 22330]%N ++ runes_of_ascii "id`,char[
+	12 ]SecurityID 
+`" ++ [35777; 21048; 20195; 30721]%N ++ runes_of_ascii "`,
+
+    char
+    Side	`" ++ [20080; 21334; 26041; 21521]%N ++ runes_of_ascii "`  , char
+
+OrderType`" ++ [35746; 21333; 31867; 22411]%N ++ runes_of_ascii "`, u64
+    Price`" ++ [20215; 26684]%N ++ runes_of_ascii "` 
+, u32
+    Qty
+    `" ++ [25968; 37327]%N ++ runes_of_ascii "`,  repeat
+
+    string
+ExtraInfo 
+`" ++ [38468; 21152; 20449; 24687]%N ++ runes_of_ascii "` 
+,repeat 
+SubOrder
+    { char[16 
+]
+    ClOrdID	`" ++ [23376; 35746; 21333; 21495]%N ++ runes_of_ascii "`
+,
+
+    u64
+
+Price  `" ++ [23376; 35746; 21333; 20215; 26684]%N ++ runes_of_ascii "` ,	u32 
+Qty
+`" ++ [23376; 35746; 21333; 25968; 37327]%N ++ runes_of_ascii "`
+,
+    }
+,}
+
+packet  RiskControlResponse  {	string
+
+UniqueOrderId`" ++ [21807; 19968; 35746; 21333; 21495]%N ++ runes_of_ascii "` ,
+i32
+Status	`" ++ [29366; 24577]%N ++ runes_of_ascii "`
+,string
+
+    Msg
+
+`" ++ [32467; 26524; 20449; 24687]%N ++ runes_of_ascii "`
+	, repeat
+	Detail , 
+}packet
+	Detail
+
+    { string	RuleName `" ++ [35268; 21017; 21517; 31216]%N ++ runes_of_ascii "` 
+,u16 Code
+    `" ++ [21407; 22240; 20195; 30721]%N ++ runes_of_ascii "`,
+}
+")).
+Eval vm_compute in ("<<<M3899>>>" ++ check (runes_of_ascii "
+
+  packet 
+trueish 
+{
+	@tag(65535
+
+    )
+
+    float @lengthOf(
+As
+	)	`" ++ [233]%N ++ runes_of_ascii "`
+
+    , i32
+	lengthOf
+	,
+repeat
+    float64  stringy `" ++ [28040; 24687; 31867; 22411]%N ++ runes_of_ascii "`
+
+, @lengthOf( A
+
+)	//	t
+	@calculatedFrom(  ""a\\"" 	 // 50% %s
+) 	 // @lengthOf(
+	@leftPad  (
+
+'\x00' )
+
+repeat u32
+    crc 
+,
+    chars 
+    /// triple
+	, 
+repeat
+string
+    lengthOf`two words`
+
+, 
+}	// @lengthOf(
+
+	packet
+metadata { @leftPad (
+
+    '0'	)
+
+    A 
+{ 
+      // `tick` ""quote"" 'q'
+	asx	// trailing space 
+{ metadata
+	`crlf
+line` ,	a1@lengthOf( 
+zchar )	, 
+      // " ++ [27880; 37322]%N ++ runes_of_ascii "
+i32
+    _x
+
+    ,
+	T 
+{
+    match
+repeatCount as 
+  /// triple
+    	//	t
+charz	{ // c
+
+0123456789
+:
+
+metadata
+	}
+	,
+
+    float64
+    rootA `" ++ [28040; 24687; 31867; 22411]%N ++ runes_of_ascii "` , 
+      /// triple
+  	// " ++ [128512]%N ++ runes_of_ascii " emoji
+  }
+
+    , 
+}	,roots
+
+    @lengthOf(
+falsey )
+
+`doc`, 
+	//x
+  	// a // b
+  	}
+
+, 
+int32
+
+x  ,
+float32
+calculatedFrom ,  //
+@lengthOf( charz)
+@calculatedFrom(
+
+    ""x y""  )
+
+@lengthOf(
+rootA )  char[ 
+00
+
+    ] f32a
+    @calculatedFrom(  ""a\\""
+
+)
+	`crlf
+line` , zchar[
+	10  ]
+metadata
+    ,zchar[
+
+007
+    ] 
+leftPad ,
+    repeat	i8i8
+	rootA 
+
+// @lengthOf(
+		//
+  ,
+uint64 calculatedFrom  // " ++ [128512]%N ++ runes_of_ascii " emoji
+
+  @calculatedFrom( 
+""x y"" )
+    `tab	here`,}
+
+")).
+Eval vm_compute in ("<<<M367>>>" ++ check (runes_of_ascii "packet
+    // " ++ [128512]%N ++ runes_of_ascii " emoji
+    x { A Foo
+`doc`  , zchar[ 0123456789
+    ] Header `line1
+line2` ,
+    } packet  int { trueish @calculatedFrom(""x y""), }packet metadata {asx @lengthOf( Packet ) ,
+    match a1//x
+as x_y_z {255 : crc 00
+:
+x , [ 0123456789] : MetaDataX ,
+255 :
+    x ,
     },
-    @calculatedFrom(""CRC32"")
-    u32 Ckecksum `" ++ [26657; 39564; 21644]%N ++ runes_of_ascii "`,
+f64 crc
+`two words` ,
+    @tag( 4294967296 ) Z9_	, Header
+    `crlf
+line`
+    ,	charz Foo
+    `" ++ [28040; 24687; 31867; 22411]%N ++ runes_of_ascii "` ,match	trueish as trueish{ 1:
+chars ,7
+    :
+calculatedFrom	, ""a	b"" :u8x
+// 50% %s
+// 50% %s
+, 65535 : msg_type	,  007 :
+    Logon , }, // " ++ [27880; 37322]%N ++ runes_of_ascii "
+o int , @calculatedFrom(""CRC32"" )string
+    Logon //
+@lengthOf(trueish) ,
+    } MetaData
+    asx{
+} packet As{zchar{match len	as zchar { 00 : repeatCount ,
+[""\n""] : rootA ,	[
+""a\""b""	, 10 ] :x_y_z
+//	t
+// c
+, } ,},@tag( 0123456789
+    )
+    @tag( 0 ) // " ++ [27880; 37322]%N ++ runes_of_ascii "
+@leftPad //
+( )repeat string	MetaDataX
+    ,
+    repeat
+    // " ++ [128512]%N ++ runes_of_ascii " emoji
+    zchar[
+    10// @lengthOf(
+]  tag //
+, @calculatedFrom(  """ ++ [233]%N ++ runes_of_ascii "t" ++ [233]%N ++ runes_of_ascii """ )
+int@lengthOf( x )
+// trailing space 
+// a // b
+,
+packetx As `100% of %d` , @lengthOf(packetx ) string
+matchKey
+, u8x i64_ `say ""hi""`
+    , i8 repeatCount , x_y_z @lengthOf( u ) ,
+    }")).
+Eval vm_compute in ("<<<M848>>>" ++ check (runes_of_ascii "packet _x { @leftPad( )
+    @tag(
+// packet A { u8 x, }
+// a // b
+7 ) @lengthOf( calculatedFrom
+    )
+u32
+    Packet
+, @tag(1 )@rightPad ( '\x00')	repeat
+u32 Header , repeat  u //
+, @calculatedFrom(
+    ""x y"") char[	42 // trailing space 
+] uint8x @calculatedFrom( ""a\\"" ) // 50% %s
+,
+@calculatedFrom(
+    ""abc""
+    // 50% %s
+    )@tag( 65535 ) repeat uint8 f32a`say ""hi""`, string zchar
+    `u8 x,`
+, char[ 3 ]
+    // " ++ [128512]%N ++ runes_of_ascii " emoji
+    pack`` , @lengthOf(packetx
+) // `tick` ""quote"" 'q'
+tag @lengthOf(repeatCount) `100% of %d` ,	match asx
+as u128 {// c
+0 : len  [ """ ++ [128512]%N ++ runes_of_ascii """ , 255 , ""x y"" , 0
+    , ""x y"" ] :x ,""a	b""	: u128 3 : Packet
+,[  ""a\\"" ,  007 ,
+// a // b
+// 50% %s
+65535
+,	7] // @lengthOf(
+: zchar
+    , },} options
+{ packetx = ' '
+; As
+= 00 // packet A { u8 x, }
+;
+} options {	leftPad =
+' '
+    //	t
+    ;
+    // @lengthOf(
+    } packet
+float {@tag(4294967296 // trailing space 
+)	char[ 1 ]
+    A `two words`, @tag( // 50% %s
+65535 )
+@calculatedFrom(
+""packet"" )@lengthOf(
+Header ) Pad , Pad @lengthOf(
+    // 50% %s
+    falsey ) ,
+} // c")).
+Eval vm_compute in ("<<<M4069>>>" ++ check (runes_of_ascii "options {
+    A = f64;
+    Z9_ = '\x00'
+    // packet A { u8 x, }
+    //
+    Packet = ""{,}"";
+    Header = ' ';
+    rootA = i32
 }
 
 packet Logon {
-    @leftPad('0')
-    char[10] UserName `" ++ [29992; 25143; 21517]%N ++ runes_of_ascii "`,
-    string Password `" ++ [23494; 30721]%N ++ runes_of_ascii "`,
-    uint64 ClientId `" ++ [23458; 25143; 31471]%N ++ runes_of_ascii "ID`,
-    u16 HeartbeatInterval `" ++ [24515; 36339; 38388; 38548]%N ++ runes_of_ascii "`,
 }
 
-packet Logout {
-    @rightPad('0')
-    char[10] UserName `" ++ [29992; 25143; 21517]%N ++ runes_of_ascii "`,
-    uint64 ClientId `" ++ [23458; 25143; 31471]%N ++ runes_of_ascii "ID`,
-}
-
-packet Heartbeat {
-}
-
-packet RiskControlRequest {
-    string UniqueOrderId `" ++ [21807; 19968; 35746; 21333; 21495]%N ++ runes_of_ascii "`,
-    char[16] ClOrdID `" ++ [23458; 25143; 35746; 21333; 21495]%N ++ runes_of_ascii "`,
-    char[3] MarketID `" ++ [24066; 22330]%N ++ runes_of_ascii "id`,
-    char[12] SecurityID `" ++ [35777; 21048; 20195; 30721]%N ++ runes_of_ascii "`,
-    char Side `" ++ [20080; 21334; 26041; 21521]%N ++ runes_of_ascii "`,
-    char OrderType `" ++ [35746; 21333; 31867; 22411]%N ++ runes_of_ascii "`,
-    u64 Price `" ++ [20215; 26684]%N ++ runes_of_ascii "`,
-    u32 Qty `" ++ [25968; 37327]%N ++ runes_of_ascii "`,
-    repeat string ExtraInfo `" ++ [38468; 21152; 20449; 24687]%N ++ runes_of_ascii "`,
-    repeat SubOrder {
-        char[16] ClOrdID `" ++ [23376; 35746; 21333; 21495]%N ++ runes_of_ascii "`,
-        u64 Price `" ++ [23376; 35746; 21333; 20215; 26684]%N ++ runes_of_ascii "`,
-        u32 Qty `" ++ [23376; 35746; 21333; 25968; 37327]%N ++ runes_of_ascii "`,
-    },
-}
-
-packet RiskControlResponse {
-    string UniqueOrderId `" ++ [21807; 19968; 35746; 21333; 21495]%N ++ runes_of_ascii "`,
-    i32 Status `" ++ [29366; 24577]%N ++ runes_of_ascii "`,
-    string Msg `" ++ [32467; 26524; 20449; 24687]%N ++ runes_of_ascii "`,
-    repeat Detail,
-}
-
-packet Detail {
-    string RuleName `" ++ [35268; 21017; 21517; 31216]%N ++ runes_of_ascii "`,
-    u16 Code `" ++ [21407; 22240; 20195; 30721]%N ++ runes_of_ascii "`,
-}")).
-Eval vm_compute in ("<<<M1809>>>" ++ check (runes_of_ascii "packet As {
-    options1 {
-        i16 o,
-    },
-    i64 roots,
-    repeat char[] o `a\`,
-    @calculatedFrom(""1"")
-    repeatCount @lengthOf(falsey) `a\`,
-    @lengthOf(stringy)
-    char[] As `" ++ [233]%N ++ runes_of_ascii "`,
-    asx {
-        match msg_type as chars {
-            //	t
-            00 : metadata,
-        },
-        i8 pack @calculatedFrom(""x y""),//	t
-        match u8x as rootA {
-            ""1"" : a1,
-            [4294967296] : msg_type,
-        },
-    },
-    @calculatedFrom(""" ++ [233]%N ++ runes_of_ascii "t" ++ [233]%N ++ runes_of_ascii """)
-    int16 roots,
-    @tag(1)
-    @leftPad('0')
+root packet x {
+    @lengthOf(Packet)
     @rightPad('\x00')
-    i32 asx `tab	here`,
-    char Logon `u8 x,`,
+    @leftPad(' ')
+    // trailing space 
+    repeat zchar[7] Pad `a\`,
+    f32a charz,
+    //	t
+    zchar[65535] x @calculatedFrom(""\n""),// trailing space 
+    zchar @lengthOf(x_y_z) ``,
 }
 
-root packet string_ {
-    // @lengthOf(
+packet x_y_z {
+    int64 len ``,
+    @calculatedFrom(""`tick`"")
+    string lengthOf `crlf
+        line`,
+    @rightPad()
+    match msg_type as BodyLength {
+        [""// no comment""] : tag,
+    },
+    //	t
+    //
+    @tag(10)
+    zchar[42] Z9_,
+    zchar[65535] matchKey @calculatedFrom(""\" ++ [233]%N ++ runes_of_ascii """) `a\`,
+    @lengthOf(tag)
+    // " ++ [128512]%N ++ runes_of_ascii " emoji
+    float `// not a comment`,
+    @leftPad(' ')
+    @tag(00)
+    @tag(007)
+    repeat char[] asx `line1
+        line2`,
+    @lengthOf(rootA)
+    repeat repeatCount As,
 }
 
-packet Z9_ {
-    int8 _x,
-    repeat u8 uint8x `" ++ [233]%N ++ runes_of_ascii "`,
-    float64 x_y_z @calculatedFrom(""x y""),
-    @calculatedFrom(""a\""b"")
-    @calculatedFrom(""a\""b"")
-    int {
-        zchar[255] msg_type,
-        i64_ {
-            stringy @lengthOf(x_y_z),
-            u options1 `tab	here`,
-            char[0123456789] msg_type,
-            float32 Foo `{ , }`,
+packet zchar {
+    @lengthOf(As)
+    repeat i16 calculatedFrom,
+    @tag(1)
+    uint16 len,
+}")).
+Eval vm_compute in ("<<<M4046>>>" ++ check (runes_of_ascii "packet tag {
+    // a // b
+    // " ++ [27880; 37322]%N ++ runes_of_ascii "
+    u64 body @calculatedFrom(""x y"") `crlf
+    line`,
+}
+
+root packet As {
+    @tag(4294967296)
+    i8 int,
+    f64 u128 @lengthOf(packetx),
+    @calculatedFrom(""" ++ [233]%N ++ runes_of_ascii "t" ++ [233]%N ++ runes_of_ascii """)
+    @tag(0)
+    @lengthOf(falsey)
+    lengthOf {
+        uint32 f32a,
+        repeat roots {
+            char MetaDataX,
+            i32 pack,
+            string metadata,
         },
     },
-    @tag(0)
-    @calculatedFrom(""CRC32"")
-    charz,
-    @tag(4294967296)
-    i64 packetx,
-}//	t")).
-Eval vm_compute in ("<<<M62>>>" ++ check (runes_of_ascii "MetaData Packet { // `tick` ""quote"" 'q'
-Header
-// " ++ [27880; 37322]%N ++ runes_of_ascii "
-// c
-uint8x
-`{ , }`, x_y_z u8x `it's`
-// packet A { u8 x, }
-// packet A { u8 x, }
-,
-} // trailing space 
-root packet packetx { repeat char[]  packetx , string zchar@lengthOf( a1
-)	`tab	here`
-    // @lengthOf(
-    ,
-match
-    string_ as float { ""a\""b""  : Logon , 00
-    :
-    Foo 42 : stringy	[ 255
-    , 0, ""a\\""] :f32a // @lengthOf(
-[7 ,	""`tick`""
-] : float , 0 : // c
-len //	t
-,} , @lengthOf( Header	)
-    //
-    len`doc`
-, repeat
-Pad { // " ++ [27880; 37322]%N ++ runes_of_ascii "
-repeat	Pad `it's`,// @lengthOf(
-char[ 65535
-    ]i64_
-    @calculatedFrom( //
-""1"" )
-    `a\` , crc
-    // `tick` ""quote"" 'q'
-    `two words` , match len
-// a // b
-/// triple
-as
-BodyLength { ""abc""
-    // " ++ [27880; 37322]%N ++ runes_of_ascii "
-    :a1, [ ""packet""
+    int8 T,
     /// triple
-    ,
-    7
-    ]
-    : crc
-,
     // c
-    3 :
-    asx , }	,	} ,
-int8 rootA @lengthOf(crc ),@lengthOf( chars)
-    // trailing space 
-    @tag( 7 ) @tag(7 ) repeat char[ 10 ] packetx	, }
-
-")).
-Eval vm_compute in ("<<<M2068>>>" ++ check (runes_of_ascii "packet
-
-    zchar{ 
-msg_type  ,
-//
-
-	// `tick` ""quote"" 'q'
-
-  @tag(
-65535 )
-	repeat	float32
-len ,@lengthOf( 
+    @tag(007)
+    @lengthOf(metadata)
+    repeat uint8x {
+        char[] As `" ++ [28040; 24687; 31867; 22411]%N ++ runes_of_ascii "`,
+        match Logon as calculatedFrom {
+            [4294967296] : metadata,
+            ""1"" : len,
+            0 : Logon,
+            ""x y"" : stringy,
+            ""it's"" : falsey,
+            ""1"" : string_,
+        },//
+        Foo MetaDataX `crlf
+        line`,
+    },
+    @rightPad()
+    float32 tag @lengthOf(charz),
+    char[255] x_y_z,
+    @calculatedFrom(""it's"")
     // " ++ [27880; 37322]%N ++ runes_of_ascii "
+    x_y_z,
+}
 
-// `tick` ""quote"" 'q'
+options {
+    msg_type = '0';
+}")).
+Eval vm_compute in ("<<<M3728>>>" ++ check (runes_of_ascii "root packet
+A 
+  // packet A { u8 x, }
+	// `tick` ""quote"" 'q'
+	  {
+int64 
+	    //	t
+  Header
+	@calculatedFrom(""packet"" ), f32 o 
+`it's` ,@calculatedFrom(  // @lengthOf(
+""""
+	)
+	zchar[
+0123456789 
+]
+A	@calculatedFrom( ""\" ++ [233]%N ++ runes_of_ascii """
+	) , @calculatedFrom(
+
+    ""abc"" 
+	// a // b
+	  //	t
+    	)repeat 
+    // `tick` ""quote"" 'q'
+char[]
+	a1
+
+,repeat
+    int trueish
+
+, @rightPad
+
+( '\x00' )zchar[4294967296	] 
+_x
+, } root
+    packet  Z9_  {
+
+}
+packet 
+calculatedFrom
+    { @lengthOf(
+
+    int
+)repeat
+	chars // trailing space 
+    body
+
+    ,
+options1  // " ++ [27880; 37322]%N ++ runes_of_ascii "
+    	@lengthOf(
+	int
+    )
+, @lengthOf(a1
+    ) repeat
+	char[ 
+	//x
+1 ]Pad
+`" ++ [28040; 24687; 31867; 22411]%N ++ runes_of_ascii "` ,
+    @calculatedFrom("""" )
+
+    rootA
+
+    u
+        // " ++ [27880; 37322]%N ++ runes_of_ascii "
+    	//
+`doc`
+    ,
+    int8 matchKey@calculatedFrom(
+	""CRC32""
+)	, @lengthOf(
+	packetx
+) @lengthOf(
+
+    msg_type ) 
+u16 Foo  ,
+packetx
 crc
-) 
-lengthOf
-        //
-    { repeat float
-
-`say ""hi""`
-	,	}
-,
-    u32// a // b
-      Packet @lengthOf(
-
-    i8i8 	 // a // b
-  ) `
-`
-	    // packet A { u8 x, }
-// packet A { u8 x, }
-    ,i8i8	// a // b
-    	, u32  calculatedFrom
-
-@lengthOf(	BodyLength  //x
-) 
-`a\` ,	@lengthOf(
-    Logon  // " ++ [128512]%N ++ runes_of_ascii " emoji
-
-  )
-
-    match
-	MetaDataX as
-    Foo
-
-    {	[ ""\n"" ,
-255  ]	:
-Packet
+`u8 x,`	,
+zchar[255 ]A
 ,
 
-    3
-	:
-
-o
-	,  [
-007
-	]	:  T	,
-    }	,
-match pack
-
-as
-A { 
-""" ++ [28040; 24687]%N ++ runes_of_ascii """
-:
-	_x 007
-	:
-    //x
-
-// " ++ [128512]%N ++ runes_of_ascii " emoji
-	metadata
-, 
-255
-	: As	,7	:
-
-    charz
-	,
-10 : len 
-,  },f32  len ,
-@leftPad
-    (
-'\x00'
-)
-
-float32
-	trueish
-,
     } ")).
-Eval vm_compute in ("<<<M1682>>>" ++ check (runes_of_ascii "
-packet msg_type 
-      // packet A { u8 x, }
-{//	t
-  string packetx  @lengthOf( charz ) ,
-@calculatedFrom( 
-"""") repeat
-	char[
-0123456789
+Eval vm_compute in ("<<<M4251>>>" ++ check (runes_of_ascii "
+
+  root
+packet 
+uint8x
+{ 	 // " ++ [27880; 37322]%N ++ runes_of_ascii "
+  MetaDataX // " ++ [27880; 37322]%N ++ runes_of_ascii "
+	`doc`,
+char A`line1
+line2`
+,
+
+    match 
+BodyLength as	roots	{
+	[
+""// no comment""
+,  4294967296 , """ ++ [128512]%N ++ runes_of_ascii """
+	]  :
+    falsey,	// @lengthOf(
+""" ++ [233]%N ++ runes_of_ascii "t" ++ [233]%N ++ runes_of_ascii """
+: o
+
+[
+7 
 ] 
-// c
-  int
-`it's` 
-, 
-@rightPad
-(  // packet A { u8 x, }
-		) @tag( 
-42
+:
+	o	,  65535:
 
-    ) @calculatedFrom(""`tick`"" )  repeat
-uint16
-falsey
-	`" ++ [233]%N ++ runes_of_ascii "` ,i32
+int
 
-Foo,
-@tag(
-7) 
-u64
+    ,
+	3	:
+int
+	,
+65535 
+:
+Foo
+	,	// packet A { u8 x, }
+	},
+@lengthOf(
+	MetaDataX
+    // c
+  // @lengthOf(
+	)
 
-chars
+repeat Packet	chars,
+@calculatedFrom(
+	""abc""  ) 
+@lengthOf(uint8x) @leftPad (
+)  
+  // " ++ [27880; 37322]%N ++ runes_of_ascii "
+    	i8 x	, repeat As  {_x  @calculatedFrom( 
+// @lengthOf(
+""x y"")	`100% of %d`
 
-    @lengthOf(
-BodyLength  ),	i16 Z9_  @lengthOf( /// triple
+, i16
 
-a1
-    )
+    options1
 
-, @lengthOf( leftPad
+@lengthOf(
+	o  ) 
+,repeat
+string
+
+    i8i8
+
+    ,
+    char[
+255
+
+    ]
+	packetx
+
+`a\`  , } 
+,
+@leftPad
+
+    ( 	 // 50% %s
+    '\x00')u32 u128 @lengthOf(
+
+msg_type )
+	`// not a comment` ,
+zchar
+
+@lengthOf(
+
+crc )	, char[ 0
+
+    ]
+a1, 
+@leftPad	(
+
+    ' '
 
 )
-    lengthOf
-    body``
-, @tag(
-
-007
-    )
-
 char[
 
-    10//x
-  ]
-	_x 
-      // a // b
-    // " ++ [27880; 37322]%N ++ runes_of_ascii "
-    @lengthOf( roots ) `
+4294967296  ] int , }")).
+Eval vm_compute in ("<<<M783>>>" ++ check (runes_of_ascii "packet  BodyLength{ Pad	{Foo i64_ `say ""hi""`
+, Header {// a // b
+zchar[
+10
+    ] o ,} ,
+repeat zchar[ 007 ]crc // trailing space 
+, u16 i64_ //x
+@calculatedFrom( ""1"" )/// triple
+`a\` ,
+} , } packet	uint8x{
+@calculatedFrom( // packet A { u8 x, }
+""a	b"") char[0123456789] x, i16
+    repeatCount @calculatedFrom( // " ++ [27880; 37322]%N ++ runes_of_ascii "
+""x y""
+    ), repeat u32 roots	,@lengthOf( string_ )
+    @lengthOf(	len
+) @rightPad ( '\x00'
+    ) repeat x_y_z{ repeat BodyLength , repeatCount
+@lengthOf(
+    charz // @lengthOf(
+) `line1
+line2`
+,} ,
+string u128 @calculatedFrom(
+""// no comment"" ) `doc`
+, char[]rootA `// not a comment` ,  }	packet T
+{rootA
+@lengthOf( tag ) `{ , }`, repeatCount x_y_z
+`it's` ,
+@tag(10 ) o options1,// " ++ [27880; 37322]%N ++ runes_of_ascii "
+match zchar as Pad
+{ """ ++ [233]%N ++ runes_of_ascii "t" ++ [233]%N ++ runes_of_ascii """ : trueish , 1 :	x_y_z ""packet"" : float 255 //x
+:
+    tag }
+,}")).
+Eval vm_compute in ("<<<M173>>>" ++ check (runes_of_ascii "
+packet int{ @tag(	4294967296 )string// trailing space 
+int , match string_
+//
+// 50% %s
+as
+matchKey
+{ ""it's"":
+    uint8x 10 : u128	,
+    // 50% %s
+    007: lengthOf	, }  ,
+    // packet A { u8 x, }
+    @calculatedFrom( ""{,}"" )
+int64 stringy
+@calculatedFrom( ""CRC32""
+)
+    , f64
+    f32a ,  u @lengthOf( lengthOf )
+`u8 x,`	, // " ++ [128512]%N ++ runes_of_ascii " emoji
+match
+Packet
+    as	rootA
+// @lengthOf(
+// " ++ [128512]%N ++ runes_of_ascii " emoji
+{ 42 :
+stringy
+    // c
+    , } , trueish , @calculatedFrom( ""x y"" )@tag(
+    42
+) char[
+    255 ]x@lengthOf(int ) , }
+    packet T {  match
+    float	as
+o { ""a\""b""
+:T
+,
+// trailing space 
+// trailing space 
+65535 : roots ,  }
+    , }packet pack { // trailing space 
+@leftPad(
+'\x00'
+) // 50% %s
+@calculatedFrom(//
+""" ++ [233]%N ++ runes_of_ascii "t" ++ [233]%N ++ runes_of_ascii """ )  string As // a // b
+@calculatedFrom(""CRC32"" ) , }
+")).
+Eval vm_compute in ("<<<M512>>>" ++ check (runes_of_ascii "options
+{
+matchKey =
+    ' '; } root packet options1 {  @tag(
+    1 // trailing space 
+) char[]
+repeatCount // a // b
+`tab	here` ,
+@lengthOf( rootA )
+zchar[ 42 //	t
+]// c
+o,
+match Header as
+i64_
+{[ ""x y"" , ""1"", 3
+] : int,""" ++ [128512]%N ++ runes_of_ascii """
+: options1, [
+    ""abc"" ] // a // b
+: body , 65535 : roots
+//	t
+// a // b
+, // " ++ [128512]%N ++ runes_of_ascii " emoji
+} , msg_type /// triple
+charz ,string f32a
+`// not a comment`  ,repeat
+int ,
+char[
+0 ] _x`two words` ,  i16 metadata// packet A { u8 x, }
+@lengthOf(  metadata ) `two words`
+    ,
+    }
+MetaData uint8x { len stringy `{ , }`
+, } options { u128
+=
+/// triple
+// a // b
+00;// `tick` ""quote"" 'q'
+Pad =
+char[ 7 ] ; calculatedFrom
+=
+    """ ++ [28040; 24687]%N ++ runes_of_ascii """crc=
+    char[]	; Z9_ =	'0';
+} packet rootA{
+    // a // b
+    repeat
+    x_y_z
+    , }
+")).
+Eval vm_compute in ("<<<M4332>>>" ++ check (runes_of_ascii "options {
+    LittleEndian = false;
+    StringPrefixLenType = u32;
+    ArrayPrefixLenType = u32;
+    FixedStringPadChar = ' ';
+}
+
+packet Order {
+    InX16 {
+        i64 Tail,
+        char[4] price,
+        repeat char[4] Qty,
+    },
+    InSym89 {
+        int8 x,
+        char[8] clOrdID,
+        i32 tag7,
+        char[7] venue,
+        int64 Ref,
+    },
+    zchar[7] Flags,
+}
+
+packet Logon {
+    zchar[3] sym,
+}
+
+packet Leg {
+    InCount34 {
+        char[10] OrderId,
+    },
+}
+
+packet Party {
+}
+
+root packet Ack {
+    repeat Leg,
+    char[8] Flags,
+    u8 seqNo,
+    u16 Qty @lengthOf(Body),
+    match seqNo as Body {
+        21 : Order,
+        56 : Logon,
+        138 : Leg,
+        73 : Party,
+    },
+}")).
+Eval vm_compute in ("<<<M3961>>>" ++ check (runes_of_ascii "packet uint8x {
+    char[] crc `" ++ [233]%N ++ runes_of_ascii "`,
+    u8 BodyLength `crlf
+    line`,
+    @tag(65535)
+    @calculatedFrom(""packet"")
+    uint8x {
+        lengthOf {
+            match u8x as msg_type {
+                ""{,}"" : metadata,
+                4294967296 : float,
+                10 : a1,
+                65535 : len,
+                """ ++ [128512]%N ++ runes_of_ascii """ : zchar,
+                [""" ++ [128512]%N ++ runes_of_ascii """] : Pad,
+            },
+            zchar[42] leftPad,
+            f64 crc,
+            u64 A @calculatedFrom(""CRC32""),
+        },
+    },
+    @lengthOf(crc)
+    repeat u128 Pad,
+    stringy trueish `say ""hi""`,
+    As matchKey,
+    @tag(10)
+    charz @calculatedFrom(""it's""),// " ++ [128512]%N ++ runes_of_ascii " emoji
+    @rightPad(' ')
+    a1 float,
+}")).
+Eval vm_compute in ("<<<M986>>>" ++ check (runes_of_ascii "packet options1
+    { Z9_ `
 `
-	,	// a // b
-@calculatedFrom(
-""a\\"" ) float64//	t
-  rootA `doc`
+    // " ++ [27880; 37322]%N ++ runes_of_ascii "
+    , @calculatedFrom( """" )float64 // a // b
+_x,string len @calculatedFrom(
+    // trailing space 
+    ""`tick`""
+)
+    `// not a comment` ,
+    match body as
+charz
+{
+    ""a\""b"" :	f32a
+    , [  ""\n""] : roots , 3 :
+u128,
+[	4294967296]
+: i8i8 }
+    ,
+@lengthOf( chars
+    ) char[
+65535] len@calculatedFrom(
+""// no comment""	) ,} options {
+trueish = true
+; Packet= 4294967296 o= char[] }
+MetaData
+metadata { trueish float
+`a\` , tag float	, // packet A { u8 x, }
+} root packet _x	{zchar[ 0123456789 ]
+// `tick` ""quote"" 'q'
+// " ++ [128512]%N ++ runes_of_ascii " emoji
+BodyLength @calculatedFrom(
+""a\""b"" )
+, }options {
+matchKey = // c
+' '	} // 50% %s")).
+Eval vm_compute in ("<<<M318>>>" ++ check (runes_of_ascii "packet Pad {@lengthOf(
+int  ) // c
+charz@calculatedFrom(
+    // " ++ [27880; 37322]%N ++ runes_of_ascii "
+    """" ) ,
+    }// " ++ [27880; 37322]%N ++ runes_of_ascii "
+packet
+    pack { // 50% %s
+u8
+    pack
+    , @tag( 0
+    ) @tag( 00  ) string rootA @calculatedFrom( ""CRC32"" ) , // " ++ [27880; 37322]%N ++ runes_of_ascii "
+@tag(  65535
+) stringy @calculatedFrom( ""a	b"" // a // b
+) , match  o as f32a { [0123456789 ]:Header 7
+:
+Pad
+,	[ ""a\\"", ""1"" , 65535
+    ,// trailing space 
+""\n"" , ""\n"" ,
+3 ,""CRC32"" ,	00 ] :
+    packetx,	[
+""`tick`"" , ""packet"" ,  ""x y""
+, 7 , 00 , //	t
+""x y"" , 10 ]:
+// packet A { u8 x, }
+// trailing space 
+matchKey ,
+""{,}"" : // @lengthOf(
+body
+    ""a\""b"" : tag
+} ,
+// trailing space 
+// trailing space 
+} /// triple")).
+Eval vm_compute in ("<<<M3966>>>" ++ check (runes_of_ascii "packet
+    i8i8{ match Pad
+as
+	u8x
+{
+	""CRC32""
+// @lengthOf(
+	: metadata
+
+, 
+[ 7 ,65535 // c
+
+] 
+: matchKey/// triple
+      ,
+}
+    ,
+metadata@calculatedFrom(
+//	t
+""// no comment"" 	 // a // b
+
+) 
+,
+	uint32
+
+f32a
+
+`
+`	// 50% %s
+  ,
+@tag(
+255
+
+) @tag(
+
+1 )
+
+@leftPad ( 	 //
+	' ' )
+
+    int32
+Foo
+`100% of %d`
+
+,	string
+falsey
+    @lengthOf(i64_  ) 
 ,
 
-    string T	@calculatedFrom("""" )	,
+@calculatedFrom(
+""\n"" )i8i8	`{ , }`,
+
+    lengthOf
+    u8x,
+@lengthOf(  
+  // @lengthOf(
+    uint8x)
+	MetaDataX	// " ++ [128512]%N ++ runes_of_ascii " emoji
+	{
+
+repeat A i64_
+`" ++ [233]%N ++ runes_of_ascii "`
+	,
+}
+,
+a1
+
+`u8 x,`
+,
+    Z9_
+
+    @calculatedFrom( 
+	// c
+	/// triple
+    ""\" ++ [233]%N ++ runes_of_ascii """
+
+)// a // b
+
+,
+}")).
+Eval vm_compute in ("<<<M3545>>>" ++ check (runes_of_ascii "
+root
+
+    packet
+
+    string_
+
+    {	@lengthOf(
+	roots )
+
+char[007
+]	zchar	``,} packet Logon {
+int64 Z9_	@calculatedFrom(
+""a\\"" 
+) ,}  MetaData  options1  {
+	zchar[ 65535
+
+]
+	i64_
+
+    ,
+	msg_type
+
+packetx`crlf
+line`
+    ,
+    char[
+0123456789
+	]
+	Packet	,
+    options1  // packet A { u8 x, }
+	As
+
+    ,
+
+f32	pack
+    ,
+
+    }  options
+
+    { // " ++ [27880; 37322]%N ++ runes_of_ascii "
+		}	root 
+packet 
+uint8x{	// trailing space 
+
+	lengthOf	{
+f64
+
+    trueish `" ++ [233]%N ++ runes_of_ascii "`  , },
+
+    @rightPad
+
+('0' )	match 
+A
+    as options1 
+      //
+    	//	t
+	  { 
+""CRC32""	:// " ++ [27880; 37322]%N ++ runes_of_ascii "
+	  MetaDataX ,
+
+    }  ,
+
+    }
+")).
+Eval vm_compute in ("<<<M648>>>" ++ check (runes_of_ascii "packet u { @lengthOf( metadata )
+    repeat Foo{
+    match
+    //	t
+    Logon
+    as
+    string_// c
+{
+    [ """ ++ [28040; 24687]%N ++ runes_of_ascii """	,
+""x y""
+    ,""a	b"" ] :Foo
+,""\n""
+    :
+    pack
+, 00:metadata , [ ""a	b"" , 42	,  ""a\\""	, ""a\\""
+    , ""x y"" , ""packet""
+//
+/// triple
+]:
+//	t
+//x
+MetaDataX
+, },i32 u8x
+    , BodyLength ,// packet A { u8 x, }
+MetaDataX,  }
+, repeat body trueish,tag {
+    repeat	u64 u128`{ , }` , zchar[0
+] int@lengthOf( rootA
+    ) , }
+// trailing space 
+// trailing space 
+,// `tick` ""quote"" 'q'
+@rightPad (
+) @tag( 42
+    )@calculatedFrom(""a\""b""
+)repeat Z9_  Z9_ ,	}
+")).
+Eval vm_compute in ("<<<M91>>>" ++ check (runes_of_ascii "MetaData rootA
+    {}
+options{ rootA= '\x00' zchar
+    ='0' rootA= float64 ;  trueish	= 3 i64_
+= float64 ; } options{
+    body
+= '0'
+    ;T= ""CRC32"";matchKey = char[] ; }	packet
+rootA {
+    // " ++ [128512]%N ++ runes_of_ascii " emoji
+    @lengthOf( //
+Z9_)
+    @rightPad('0' ) Packet calculatedFrom , }packet
+body
+    { match metadata
+as asx {
+    3 : Header 3: packetx	, [  10]
+:	Packet, """"
+// 50% %s
+// " ++ [27880; 37322]%N ++ runes_of_ascii "
+:
+pack
+//x
+// packet A { u8 x, }
+, 10  : // `tick` ""quote"" 'q'
+pack // `tick` ""quote"" 'q'
+[
+    255 , // a // b
+"""",00 ,
+""it's"" ] :
+x }
+// c
+/// triple
+,
+    }
+")).
+Eval vm_compute in ("<<<M288>>>" ++ check (runes_of_ascii "MetaData asx
+{  char[ 00
+]u8x , trueish tag `it's`,
+} root packet i64_ {  repeat	repeatCount// trailing space 
+msg_type , char[
+7 ] asx
+//x
+/// triple
+, } options { BodyLength = true
+; } packet x {
+    @tag( 1
+    ) @rightPad( '\x00'
+)// trailing space 
+@lengthOf(f32a )int16
+pack `
+` ,repeat char[] options1
+,// c
+string options1	@lengthOf(	calculatedFrom) `" ++ [233]%N ++ runes_of_ascii "`
+,// @lengthOf(
+@tag(	1 )Packet // packet A { u8 x, }
+string_
+, As {
+matchKey
+chars , } , repeat string
+crc `// not a comment`	, repeat T  ,}
+//x
+")).
+Eval vm_compute in ("<<<M3533>>>" ++ check (runes_of_ascii "
+packet
+	metadata
+	{ }
+MetaData
+trueish 
+    // 50% %s
+  	//
+    {
+
+metadata
+
+Logon`a\`, 
+} packet 
+rootA
+
+{@tag(
+
+255)  len
+@calculatedFrom(  /// triple
+""a	b""
+)
+, repeat f32a, repeat
+body
+	// " ++ [128512]%N ++ runes_of_ascii " emoji
+	// `tick` ""quote"" 'q'
+	{ char[] repeatCount ,
 
     }
 
-")).
-Eval vm_compute in ("<<<M1984>>>" ++ check (runes_of_ascii "
-
-  packet
-T { 
-@lengthOf( 
-MetaDataX
-	) match Packet as a1
-
-{	[
-""1""  ]
-	:zchar	""{,}""
-    :
-
-    _x ,
-
-}
-,// @lengthOf(
-  	char[
-	007]	// a // b
-  u128  @lengthOf( zchar )
-	    // a // b
-    // packet A { u8 x, }
-	,string_ , @leftPad
-(	' '  )
-
-    match
-
-    MetaDataX as 
-u128 {  [""it's"" , 7
-    , 
-65535 ,
-	65535
-
-    ]
-: chars
-
-,  """ ++ [28040; 24687]%N ++ runes_of_ascii """ 	 // c
-:
+    ,
+    string
 u
-,
+	@lengthOf( _x ) , @tag(
+255 
+)Packet 
+@lengthOf(	// c
+	packetx ) ,
+	metadata
+@lengthOf(
+    float
+), MetaDataX
 
-    42 : zchar, 
-}
-	,
-} options 	 // `tick` ""quote"" 'q'
-  {
-    matchKey
-=""a\""b""  }  MetaData
+@calculatedFrom(
 
-options1  {i16 len 
-,
-    char[
-    7 ]	// packet A { u8 x, }
-crc
-,u16
-    asx`say ""hi""`,
-i64
-zchar ,	} 	 // " ++ [27880; 37322]%N ++ runes_of_ascii "
+""" ++ [233]%N ++ runes_of_ascii "t" ++ [233]%N ++ runes_of_ascii """ ), repeat zchar[
+	0
+] u8x
+
+, repeat float64 calculatedFrom 
+, }
 ")).
-Eval vm_compute in ("<<<M1545>>>" ++ check (runes_of_ascii "
-options{ StringPrefixLenType =
-	u8
-
-;ArrayPrefixLenType = u32 ; }	packet
-
-    Quote{ u32 Ref  ,InNote74
-	{
-u8 
-pad0
-	,	}
-
-    ,
-
-    } packet
-Ack	{
-
-    repeat
-	string OrderId	,
-}
-packet
-Logout { zchar[ 7
-
-    ]  venue 
-, 
-char[
-12
-    ] 
-Px
-
-    ,string	count 
-,char[]
-Tail
-
-,
-char[]
-Qty
-,	Quote
-
-    ,
-	} root 
-packet
-
-Trade
-	{
-zchar[ 2 ]
-price	,
-
-    u32 x	, u32	lastPx
-
-@lengthOf(Body
-),  match
-x
-
+Eval vm_compute in ("<<<M4088>>>" ++ check (runes_of_ascii "packet i8i8 {
+    match Pad as u8x {
+        ""CRC32"" : metadata,
+        [7, 65535] : matchKey,
+    },
+    metadata @calculatedFrom(""// no comment""),
+    uint32 f32a `
+    `,
+    @tag(255)
+    @tag(1)
+    @leftPad(' ')
+    int32 Foo `100% of %d`,
+    string falsey @lengthOf(i64_),
+    @calculatedFrom(""\n"")
+    i8i8 `{ , }`,
+    lengthOf u8x,
+    @lengthOf(uint8x)
+    MetaDataX {
+        repeat A i64_ `" ++ [233]%N ++ runes_of_ascii "`,
+    },
+    a1 `u8 x,`,
+    Z9_ @calculatedFrom(""\" ++ [233]%N ++ runes_of_ascii """),
+}")).
+Eval vm_compute in ("<<<M1088>>>" ++ check (runes_of_ascii "packet // 50% %s
+matchKey {	}
+packet int { match
+body
 as
-
-    Body  { 148
-
-:
-    Ack
-, 
-171	: Quote	, 15  :
-
-Logout  , 
-}	,  } ")).
-Eval vm_compute in ("<<<M148>>>" ++ check (runes_of_ascii "packet Foo  { Logon A`a\`, a1 A
-, @lengthOf(
-//	t
-// trailing space 
-tag ) // trailing space 
-x_y_z
-@lengthOf( leftPad
-    ) `it's`, @tag( 255 ) match crc// @lengthOf(
-as  roots {
-""" ++ [233]%N ++ runes_of_ascii "t" ++ [233]%N ++ runes_of_ascii """	:Foo ,[ 10 , 007 //
-, // a // b
-""" ++ [233]%N ++ runes_of_ascii "t" ++ [233]%N ++ runes_of_ascii """ ,
-// c
-// @lengthOf(
-""a	b""]
-    :x_y_z}
-    , // @lengthOf(
-}  root packet As { }	MetaData calculatedFrom // trailing space 
-{ Z9_ _x ``	,
-} MetaData tag { // " ++ [27880; 37322]%N ++ runes_of_ascii "
-string body , string options1 ,i8i8 pack, }
-")).
-Eval vm_compute in ("<<<M94>>>" ++ check (runes_of_ascii "options { o =
-    ' ' ; lengthOf= ""it's"" string_= """ ++ [28040; 24687]%N ++ runes_of_ascii """	;i8i8 // c
-=  uint32 } packet Logon{	Pad	@lengthOf(
-    stringy),@rightPad (	'\x00'
-) Header stringy `a\` , T { match	a1
-    as Logon{  42 :
-chars }	, },stringy {
-zchar[ 7 // trailing space 
-] x_y_z, }, uint8x BodyLength
-, repeat zchar ,	@tag( 7 ) repeat // packet A { u8 x, }
-u64 u128`" ++ [28040; 24687; 31867; 22411]%N ++ runes_of_ascii "` // packet A { u8 x, }
-, }")).
-Eval vm_compute in ("<<<M1884>>>" ++ check (runes_of_ascii "root packet roots {
-    @rightPad('0')
-    char[255] T `line1
-        line2`,
-}
-
-packet msg_type {
-    Logon {
-        f64 x_y_z ``,
-    },
-    i8 pack @lengthOf(stringy),
-    @tag(4294967296)
-    char[] msg_type,
-    stringy {
-        match x as roots {
-            1 : options1,
-            ""it's"" : BodyLength,
-        },
-    },
-}")).
-Eval vm_compute in ("<<<M1537>>>" ++ check (runes_of_ascii "options {
-    LittleEndian = true;
-    StringPrefixLenType = u8;
-    ArrayPrefixLenType = u8;
-}
-packet Ack {
-}
-root packet Quote {
-    Ack,
-    InSym94 {
-        repeat Ack,
-    },
-    u16 msgKind,
-    u16 OrderId @lengthOf(Body),
-    match msgKind as Body {
-        [110, 48] : Ack,
-    },
-}
-")).
-Eval vm_compute in ("<<<M544>>>" ++ check (runes_of_ascii "root packet tag { }  packet MetaDataX{char[007	]
-// c
-/// triple
-asx  @calculatedFrom( ""a\""b"" ""a\""b""
-) `say ""hi""`// " ++ [27880; 37322]%N ++ runes_of_ascii "
-,  @tag(4294967296 )
-    char[1//x
-] packetx @calculatedFrom(""a\""b""
-    ) ,
-// " ++ [128512]%N ++ runes_of_ascii " emoji
-// a // b
-@calculatedFrom(""" ++ [233]%N ++ runes_of_ascii "t" ++ [233]%N ++ runes_of_ascii """  ) repeat pack // " ++ [27880; 37322]%N ++ runes_of_ascii "
-,
-    } // c")).
-Eval vm_compute in ("<<<M663>>>" ++ check (runes_of_ascii "root packet tag { }  packet MetaDataX{char[007	]
-// c
-/// triple
-asx  @calculatedFrom( ""a\""b""
-) `say ""hi""`// " ++ [27880; 37322]%N ++ runes_of_ascii "
-,  @tag(4294967296 )
-    '' char[1//x
-] packetx @calculatedFrom(""a\""b""
-    ) ,
-// " ++ [128512]%N ++ runes_of_ascii " emoji
-// a // b
-@calculatedFrom(""" ++ [233]%N ++ runes_of_ascii "t" ++ [233]%N ++ runes_of_ascii """  ) repeat pack // " ++ [27880; 37322]%N ++ runes_of_ascii "
-,
-    } // c")).
-Eval vm_compute in ("<<<M591>>>" ++ check (runes_of_ascii "root packet tag { }  packet MetaDataX{char[007	]
-// c
-/// triple
-asx  @calculatedFrom( ""a\""b""
-) `say ""hi""`// " ++ [27880; 37322]%N ++ runes_of_ascii "
-,  @tag(4294967296 )
-    char[1//x
-as packetx @calculatedFrom(""a\""b""
-    ) ,
-// " ++ [128512]%N ++ runes_of_ascii " emoji
-// a // b
-@calculatedFrom(""" ++ [233]%N ++ runes_of_ascii "t" ++ [233]%N ++ runes_of_ascii """  ) repeat pack // " ++ [27880; 37322]%N ++ runes_of_ascii "
-,
-    } // c")).
-Eval vm_compute in ("<<<M595>>>" ++ check (runes_of_ascii "root packet tag { }  packet MetaDataX{char[007	]
-// c
-/// triple
-asx  @calculatedFrom( ""a\""b""
-) `say ""hi""`// " ++ [27880; 37322]%N ++ runes_of_ascii "
-,  @tag(4294967296 )
-    char[1//x
-] @calculatedFrom( packetx""a\""b""
-    ) ,
-// " ++ [128512]%N ++ runes_of_ascii " emoji
-// a // b
-@calculatedFrom(""" ++ [233]%N ++ runes_of_ascii "t" ++ [233]%N ++ runes_of_ascii """  ) repeat pack // " ++ [27880; 37322]%N ++ runes_of_ascii "
-,
-    } // c")).
-Eval vm_compute in ("<<<M636>>>" ++ check (runes_of_ascii "root packet tag { }  packet MetaDataX{char[007	]
-// c
-/// triple
-asx  @calculatedFrom( ""a\""b""
-) `say ""hi""`// " ++ [27880; 37322]%N ++ runes_of_ascii "
-,  @tag(4294967296 )
-    char[1//x
-] packetx @calculatedFrom(""a\""b""
-    ) ,
-// " ++ [128512]%N ++ runes_of_ascii " emoji
-// a // b
-@calculatedFrom(""" ++ [233]%N ++ runes_of_ascii "t" ++ [233]%N ++ runes_of_ascii """  ) int8 pack // " ++ [27880; 37322]%N ++ runes_of_ascii "
-,
-    } // c")).
-Eval vm_compute in ("<<<M73>>>" ++ check (runes_of_ascii "packet MetaDataX
-{ @calculatedFrom(
-    ""CRC32""
-    ) @tag(	255 //
-) zchar[ 007
-// c
-// trailing space 
-] Logon , } MetaData
-// " ++ [27880; 37322]%N ++ runes_of_ascii "
-// `tick` ""quote"" 'q'
-u8x{ char[0123456789
-    // @lengthOf(
-    ]	Foo , i64 x_y_z , o msg_type
-    , }
-// packet A { u8 x, }
-")).
-Eval vm_compute in ("<<<M1927>>>" ++ check (runes_of_ascii "  // top
-  MetaData // c0
-	body 	 // c1
-    {// c2
-
-i64 // c3
-	pack // c4
-		`it's`  // c5
-    ,// c6
-}	// c7
-  packet  // c8
-  stringy 	 // c9
-    	{ // c10
-    int16 	 // c11
-	  calculatedFrom// c12
-  , 	 // c13
-	} 	 // c14
- 
-")).
-Eval vm_compute in ("<<<M9>>>" ++ check (runes_of_ascii "options
-    {
-As= ""1"" ; matchKey = 0123456789 options1
-    =
-0123456789 ;// a // b
-asx// c
-=
-    ""CRC32"" ;
-    tag =00;
-}// trailing space 
-packet
-matchKey { @calculatedFrom(
-    ""abc""	) int32 repeatCount ,
-}
-")).
-Eval vm_compute in ("<<<M2088>>>" ++ check (runes_of_ascii "root packet Foo {
-    i16 BodyLength `// not a comment`,
-    //x
-}
-
-options {
-    // packet A { u8 x, }
-}
-
-options {
-    Z9_ = false
-    msg_type = true
-    f32a = ' '
-    zchar = ""`tick`"";
-}")).
-Eval vm_compute in ("<<<M187>>>" ++ check (runes_of_ascii "root packet u128 { char[  7 ]tag@calculatedFrom(
-""\" ++ [233]%N ++ runes_of_ascii """
-    ) // " ++ [128512]%N ++ runes_of_ascii " emoji
-`" ++ [233]%N ++ runes_of_ascii "`, @rightPad ( )
-    packetx , @lengthOf(  o
-    )	lengthOf
-@lengthOf( float )
-`// not a comment`,
-}
-")).
-Eval vm_compute in ("<<<M397>>>" ++ check (runes_of_ascii "packet
-    // `tick` ""quote"" 'q'
-    crc
-// packet A { u8 x, }
-//	t
-u32
-u32 a1 ,
-    // trailing space 
-    roots
-charz //
-`two words`,	}
-    MetaData int {
-} /// triple")).
-Eval vm_compute in ("<<<M706>>>" ++ check (runes_of_ascii "root packet len // trailing space 
-{
-// " ++ [27880; 37322]%N ++ runes_of_ascii "
-//	t
-char[10
-] metadata	@lengthOf( o ) `crlf
-" ++ [8232]%N ++ runes_of_ascii "line`,
-    @rightPad
-( ' '
-) string
-    Header @calculatedFrom( ""a\\""
-    ), }
-")).
-Eval vm_compute in ("<<<M2109>>>" ++ check (runes_of_ascii "packet u128 {
-    @calculatedFrom(""a	b"")
-    repeat uint8x u128 `line1
-        line2`,
-}
-
-packet string_ {
-    @calculatedFrom(""" ++ [128512]%N ++ runes_of_ascii """)
-    uint8 Pad @lengthOf(o) `{ , }`,
-}")).
-Eval vm_compute in ("<<<M146>>>" ++ check (runes_of_ascii "root packet	BodyLength
-    {
+Header {
+"""" :
+Header [ 0
     // " ++ [27880; 37322]%N ++ runes_of_ascii "
-    @lengthOf( asx) repeat char[ 007
-] matchKey ,char[]
-MetaDataX @lengthOf(
-Foo) `tab	here` ,
-repeat uint64 //	t
-f32a
-, }")).
-Eval vm_compute in ("<<<M1740>>>" ++ check (runes_of_ascii "MetaData As {
-    // " ++ [128512]%N ++ runes_of_ascii " emoji
-    // @lengthOf(
-    a1 Pad,
-    zchar[00] body `// not a comment`,
-    crc uint8x `// not a comment`,
-    uint32 packetx ``,
-}")).
-Eval vm_compute in ("<<<M15>>>" ++ check (runes_of_ascii "options { matchKey
-    =
-10 } MetaData options1{
-    matchKey o `doc` , rootA tag
-,uint32 _x /// triple
-`line1
-line2`, char[] chars `say ""hi""`,  }")).
-Eval vm_compute in ("<<<M2089>>>" ++ check (runes_of_ascii "packet u128 {
-    @lengthOf(options1)
-    repeat int `" ++ [28040; 24687; 31867; 22411]%N ++ runes_of_ascii "`,
-    @calculatedFrom("""")
-    repeat f32 Z9_,
-    zchar[007] msg_type `doc`,
-}")).
-Eval vm_compute in ("<<<M1892>>>" ++ check (runes_of_ascii "packet A {
-    match k as n {
-        [
-            1, 22, ""c c"", 4, 5,
-            ""f"", 7
-        ] : B,
-        2 : C,
-    },
-}")).
-Eval vm_compute in ("<<<M1225>>>" ++ check (runes_of_ascii "root packet // c
-matchKey { zchar[ 3 ] pack @calculatedFrom( ""a	b"" ) `doc` , } options { } MetaData A { int8 msg_type , }")).
-Eval vm_compute in ("<<<M1257>>>" ++ check (runes_of_ascii "root packet matchKey { zchar[ 3 ] pack @calculatedFrom( ""a	b"" ) `doc` , } options { } MetaData // c
-A { int8 msg_type , }")).
-Eval vm_compute in ("<<<M1732>>>" ++ check (runes_of_ascii "packet A {
-    Inner {
-        u8 x `
-        `,
-        Deep {
-            u8 y `
-            `,
-        },
-    },
-}")).
-Eval vm_compute in ("<<<M2030>>>" ++ check (runes_of_ascii "packet A {
-    B b `a
-        b
-      c`,
-    B `a
-        b
-      c`,
-    repeat B bs `a
-        b
-      c`,
-}")).
-Eval vm_compute in ("<<<M896>>>" ++ check (runes_of_ascii "packet A {
-  match k as n {
-    [""a"", ""bb"", 007, ""d"", ""e"", 66, ""g"", ""h"", 9, ""j"", ""k""] : B,
-    2 : C
-  },
-}")).
-Eval vm_compute in ("<<<M289>>>" ++ check (runes_of_ascii "packet a1 {
-}
-options{
-MetaDataX = ""`tick`"" uint8x = false; f32a = zchar[	00] ; } // `tick` ""quote"" 'q'")).
-Eval vm_compute in ("<<<M18>>>" ++ check (runes_of_ascii "// packet A { u8 x, }
-options{lengthOf= 255 // " ++ [27880; 37322]%N ++ runes_of_ascii "
-; /// triple
-}packet MetaDataX {int32  body
-, }")).
-Eval vm_compute in ("<<<M1881>>>" ++ check (runes_of_ascii "packet B {
-    u8 a,
-    string s,
+    , ""`tick`"", ""a\""b"" ]:asx , } , repeat
+// `tick` ""quote"" 'q'
+// " ++ [128512]%N ++ runes_of_ascii " emoji
+uint8 leftPad
+    //	t
+    , string uint8x	, f64
+    u@lengthOf( matchKey )
+    `u8 x,` /// triple
+, } root
+packet  x { @lengthOf(	crc )
+@rightPad () zchar `u8 x,`, @calculatedFrom(
+""" ++ [233]%N ++ runes_of_ascii "t" ++ [233]%N ++ runes_of_ascii """ ) int16	i8i8 @lengthOf( u
+    ) `tab	here`,
+    char[
+    7
+    ] // c
+o
+`" ++ [28040; 24687; 31867; 22411]%N ++ runes_of_ascii "` , }
+")).
+Eval vm_compute in ("<<<M4239>>>" ++ check (runes_of_ascii "//	t
+packet int {
+    chars falsey `u8 x,`,
+    char[3] asx @lengthOf(string_) `say ""hi""`,
+    @calculatedFrom(""" ++ [128512]%N ++ runes_of_ascii """)
+    u64 x_y_z `line1
+    line2`,
 }
 
-root packet P {
-    u16 L @lengthOf(B),
-    B,
-    u8 t,
+packet leftPad {
+    @calculatedFrom(""it's"")
+    uint8 chars `two words`,
+    @calculatedFrom(""CRC32"")
+    @lengthOf(o)
+    repeat char[4294967296] x,
+    @calculatedFrom(""CRC32"")
+    float64 Packet `it's`,
+    @tag(65535)
+    char[] f32a @calculatedFrom(""x y"") `doc`,// c
 }")).
-Eval vm_compute in ("<<<M837>>>" ++ check (runes_of_ascii "packet A {
-  match k as n {
-    [""a"", ""bb"", ""c c"", ""d"", ""e"", ""f"", ""g""] : B
-    2 : C
-  },
-}")).
-Eval vm_compute in ("<<<M1184>>>" ++ check (runes_of_ascii "MetaData float { // c
-float64 charz `
-` , } root packet chars { @rightPad ( '0' ) Foo , }")).
-Eval vm_compute in ("<<<M1394>>>" ++ check (runes_of_ascii "// c
-packet chars { } packet MetaDataX { @tag( 42 ) i16 string_ , repeat x `say ""hi""` , }")).
-Eval vm_compute in ("<<<M1427>>>" ++ check (runes_of_ascii "packet chars { } packet MetaDataX { @tag( 42 ) i16 string_ , repeat x `say ""hi""`
-// c
-, }")).
-Eval vm_compute in ("<<<M1125>>>" ++ check (runes_of_ascii "packet
-// c
-metadata { Logon { A `" ++ [28040; 24687; 31867; 22411]%N ++ runes_of_ascii "` , tag o , } , zchar len `// not a comment` , }")).
-Eval vm_compute in ("<<<M1157>>>" ++ check (runes_of_ascii "packet metadata { Logon { A `" ++ [28040; 24687; 31867; 22411]%N ++ runes_of_ascii "` , tag o , } , zchar len `// not a comment` ,
-// c
-}")).
-Eval vm_compute in ("<<<M1362>>>" ++ check (runes_of_ascii "packet o { repeat Logon uint8x , } options { asx = // c
-zchar[ 3 ] stringy = '\x00' }")).
-Eval vm_compute in ("<<<M270>>>" ++ check (runes_of_ascii "MetaData _x{ } packet calculatedFrom {
-}MetaData
-_x	{i32
-    body
-    , uint8 x , }")).
-Eval vm_compute in ("<<<M1323>>>" ++ check (runes_of_ascii "MetaData body { i64 pack `it's` , } packet stringy // c
-{ int16 calculatedFrom , }")).
-Eval vm_compute in ("<<<M819>>>" ++ check (runes_of_ascii "packet A {
-  match k as n {
-    [""a"", ""bb"", 007, ""d"", ""e""] : B
-    2 : C
-  },
-}")).
-Eval vm_compute in ("<<<M1444>>>" ++ check (runes_of_ascii "packet Inner {
-    u8 a,
+Eval vm_compute in ("<<<M102>>>" ++ check (runes_of_ascii "packet body
+    { zchar[ 4294967296 ] uint8x
+@lengthOf(
+leftPad )
+,
+@tag( 1	) // " ++ [128512]%N ++ runes_of_ascii " emoji
+@tag( 3 ) match i8i8	as string_ { [
+""a	b"" ,""1"", 4294967296
+    ,	007 , ""a\\""	, 3	]
+:
+string_ , } , @lengthOf(
+    //	t
+    Foo)match a1 as
+    Pad { 00 :trueish
+, [
+65535 ,
+    0  , ""1"" , ""it's"" ] : uint8x
+    ""CRC32"": A ,  } , u16 matchKey ,o@calculatedFrom(  """ ++ [28040; 24687]%N ++ runes_of_ascii """	), a1 { repeat // packet A { u8 x, }
+i64_ ,} ,}
+")).
+Eval vm_compute in ("<<<M4191>>>" ++ check (runes_of_ascii "options
+	{leftPad = '\x00'
+
 }
-root packet P {
-    Inner ref_obj,
-    u8 x,
+
+options
+	{  }
+packet i64_ {	char[
+	255
+]
+matchKey
+@lengthOf( trueish
+
+    )
+
+    `tab	here`
+
+    ,Pad
+	`line1
+line2`
+,
+    repeat
+
+    string_
+, trueish
+
+    @calculatedFrom(
+	""1""	//
+    )
+
+    ``	,
+    @leftPad 
+(
+
+'\x00'
+
+    )	zchar[
+	0	] string_
+`two words` 
+
+// packet A { u8 x, }
+    	,
+@tag(
+
+3
+
+    )	// packet A { u8 x, }
+x
+    , }
+
+")).
+Eval vm_compute in ("<<<M180>>>" ++ check (runes_of_ascii "root //x
+packet
+    charz //	t
+{ repeat
+zchar[ 65535
+]
+Packet ,} MetaData
+u128
+{string uint8x//
+, rootA
+_x , char[007
+    ] uint8x ,
+As A
+,Header u`line1
+line2` , rootA chars `100% of %d` ,}MetaData trueish{ uint8 Logon ,
+    // c
+    uint8 // `tick` ""quote"" 'q'
+float
+,//
+u/// triple
+As
+,/// triple
+falsey packetx
+//	t
+// " ++ [128512]%N ++ runes_of_ascii " emoji
+, i8i8
+    rootA,
+    i16 roots `
+` ,}")).
+Eval vm_compute in ("<<<M144>>>" ++ check (runes_of_ascii "
+root packet matchKey {  repeat x{ trueish calculatedFrom, match leftPad
+as _x
+{ 1
+:i64_
+,  """ ++ [28040; 24687]%N ++ runes_of_ascii """
+    :	options1
+    // c
+    }  ,repeat char[]  uint8x ,A{repeat metadata
+roots `a\` , //
+char[10 ] x_y_z@calculatedFrom( ""\" ++ [233]%N ++ runes_of_ascii """ ) `tab	here` ,leftPad, float32 f32a @calculatedFrom(
+""" ++ [233]%N ++ runes_of_ascii "t" ++ [233]%N ++ runes_of_ascii """ ) `{ , }`
+,
+} // `tick` ""quote"" 'q'
+, }
+    ,
+// trailing space 
+// c
 }
 ")).
-Eval vm_compute in ("<<<M872>>>" ++ check (runes_of_ascii "packet A { Inner { match k as n { [1,22,007,4,5,66,7,8,9] : B, }, }, }")).
-Eval vm_compute in ("<<<M1485>>>" ++ check (runes_of_ascii "root packet P {
-    u8 s_u8,
-    repeat u8 r_u8,
-    u16 b_len,
-}
-")).
-Eval vm_compute in ("<<<M22>>>" ++ check (runes_of_ascii "options
-    // a // b
+Eval vm_compute in ("<<<M143>>>" ++ check (runes_of_ascii "MetaData
+Logon {string //x
+a1`{ , }`
+    , string
+a1,Logon charz,zchar[ 42 ]Z9_ ,
+// packet A { u8 x, }
+//
+} options { packetx =
+    00; tag = zchar[
+    0123456789]
+    i64_	=
+    ""\" ++ [233]%N ++ runes_of_ascii """ As
+    =""CRC32"" ;body
+=
+255 ;}// 50% %s
+MetaData Packet { u64
+    // 50% %s
+    x
+, zchar[ 7 ] matchKey
+`" ++ [28040; 24687; 31867; 22411]%N ++ runes_of_ascii "` ,
+    string_
+    As ,	} // @lengthOf(")).
+Eval vm_compute in ("<<<M3849>>>" ++ check (runes_of_ascii "options 
+{
+
+    calculatedFrom  =
+
+""\n""
+    ;}
+
+root
+packet  lengthOf
+    { 	 /// triple
+	@calculatedFrom(
+
+    ""\" ++ [233]%N ++ runes_of_ascii """	)
+	repeatCount
+	@calculatedFrom(	""\" ++ [233]%N ++ runes_of_ascii """)  `
+`
+,Logon
+    , 
+u @calculatedFrom(
+	""it's""
+), metadata
+	rootA	//	t
+	,
+
+char[  // 50% %s
+  	42
+	]
+
+u
+@calculatedFrom(""a	b"")
+, }
+    packet 
+Header
+
     {
-float	= char[ 4294967296 ] ; }
-")).
-Eval vm_compute in ("<<<M1283>>>" ++ check (runes_of_ascii "packet x { @rightPad
-// c
-( ) repeat roots Logon `doc` , }")).
-Eval vm_compute in ("<<<M781>>>" ++ check (runes_of_ascii "packet A { Inner { match k as n { [1,22] : B, }, }, }")).
-Eval vm_compute in ("<<<M922>>>" ++ check (runes_of_ascii "MetaData M {
-    u8 x `a
-b`,
-    T t `a
-b`,
+
 }")).
-Eval vm_compute in ("<<<M1090>>>" ++ check (runes_of_ascii "packet A { char[ // a
- 3 // b
- ] // c
- x, }")).
-Eval vm_compute in ("<<<M1111>>>" ++ check (runes_of_ascii "root packet u128 { chars `it's`
+Eval vm_compute in ("<<<M4167>>>" ++ check (runes_of_ascii "
+root
+	packet
+    BodyLength	{
+@tag(	65535 )
+zchar[
+7 ]
+	msg_type
+
+,
+MetaDataX
+
+    @calculatedFrom(""// no comment""	) ,
+
+// packet A { u8 x, }
+	// c
+  }
+
+    root
+packet stringy
+
+{ 
+@tag( 
+00	)	repeat
+
+    pack 
+leftPad  // packet A { u8 x, }
+    `tab	here` , 
+repeat
+
+body
+
+,
+
+}	MetaData
+a1  {
+
+    } ")).
+Eval vm_compute in ("<<<M732>>>" ++ check (runes_of_ascii "packet x_y_z
+    { @leftPad ( ' ') match packetx
+as _x  { ""\n"" :zchar
+, 3 // @lengthOf(
+: options1 // c
+,	7
+    :
+roots
+    // a // b
+    ,
+""a	b""
+    :	pack, ""\" ++ [233]%N ++ runes_of_ascii """
+: // a // b
+BodyLength , } , char[ 255]
+body
+,  @tag( 007)  Packet A ,
+@calculatedFrom( """ ++ [28040; 24687]%N ++ runes_of_ascii """) zchar[
+// " ++ [27880; 37322]%N ++ runes_of_ascii "
+//
+255
+    ] x_y_z	, }
+")).
+Eval vm_compute in ("<<<M863>>>" ++ check (runes_of_ascii "packet As // `tick` ""quote"" 'q'
+{ lengthOf{
+crc{i16 stringy @calculatedFrom(""packet""
+) , Z9_	{MetaDataX @calculatedFrom( ""a\\"" ) , }
+,
+repeat char[3]	Packet , /// triple
+}
+,
+} ,	@tag(
+// `tick` ""quote"" 'q'
+//x
+1
+)	repeat Z9_
+// " ++ [128512]%N ++ runes_of_ascii " emoji
+// packet A { u8 x, }
+, char[] // c
+falsey ,}
+")).
+Eval vm_compute in ("<<<M542>>>" ++ check (runes_of_ascii "root	packet chars { @leftPad('0' ) f32
+options1 @lengthOf(
+x )
+    `it's`  , } packet i8i8{// trailing space 
+uint8 //x
+body
+,zchar[ 65535 ] pack	@lengthOf( leftPad
+) , @lengthOf( lengthOf
+    ) u8 i8i8 @lengthOf(
+f32a ),	}
+    packet u8x
+    // packet A { u8 x, }
+    { }")).
+Eval vm_compute in ("<<<M3597>>>" ++ check (runes_of_ascii "packet A {
+    @rightPad(' ')
+    uint32 o @calculatedFrom(""""),
+}// a // b
+
+packet matchKey {
+    repeat chars,
+    string chars `crlf
+        line`,
+    string x_y_z,
+    A roots,
+    @lengthOf(body)
+    repeat zchar[10] x,
+}
+
+options {
+    pack = ""abc""
+}// @lengthOf(")).
+Eval vm_compute in ("<<<M1706>>>" ++ check (runes_of_ascii "// 50% %s
+packet	a1
+    { zchar[
+// a // b
+// 50% %s
+007]
+T `it's`
+    ,@rightPad
+    // a // b
+    (
+'\x00')
+    o repeatCount , }  packet '1'Logon {  }packet	Logon //x
+{ repeat // " ++ [128512]%N ++ runes_of_ascii " emoji
+uint16 u128
+    //
+    `a\`,
+falsey
+@calculatedFrom(""packet"" ) ,
+    } 	 ")).
+Eval vm_compute in ("<<<M1654>>>" ++ check (runes_of_ascii "// 50% %s
+packet	a1
+    { zchar[
+// a // b
+// 50% %s
+007]
+T `it's`
+    ,@rightPad
+    // a // b
+    (
+'\x00')
+    o repeatCount , }  packet Logon {  }packet	Logon //x
+{ repeat // " ++ [128512]%N ++ runes_of_ascii " emoji
+uint16 u128
+    //
+    ""a\\"",
+falsey
+@calculatedFrom(""packet"" ) ,
+    } 	 ")).
+Eval vm_compute in ("<<<M1623>>>" ++ check (runes_of_ascii "// 50% %s
+packet	a1
+    { zchar[
+// a // b
+// 50% %s
+007]
+T `it's`
+    ,@rightPad
+    // a // b
+    (
+'\x00')
+    o repeatCount , }  packet Logon {  }Logon	packet //x
+{ repeat // " ++ [128512]%N ++ runes_of_ascii " emoji
+uint16 u128
+    //
+    `a\`,
+falsey
+@calculatedFrom(""packet"" ) ,
+    } 	 ")).
+Eval vm_compute in ("<<<M1681>>>" ++ check (runes_of_ascii "// 50% %s
+packet	a1
+    { zchar[
+// a // b
+// 50% %s
+007]
+T `it's`
+    ,@rightPad
+    // a // b
+    (
+'\x00')
+    o repeatCount , }  packet Logon {  }packet	Logon //x
+{ repeat // " ++ [128512]%N ++ runes_of_ascii " emoji
+uint16 u128
+    //
+    `a\`,
+falsey
+@calculatedFrom(""packet"" ) 
+    } 	 ")).
+Eval vm_compute in ("<<<M666>>>" ++ check (runes_of_ascii "MetaData
+Header {// trailing space 
+i64 pack,}
+root packet
+charz
+{
+repeat string BodyLength /// triple
+`// not a comment`,// " ++ [128512]%N ++ runes_of_ascii " emoji
+@calculatedFrom( // trailing space 
+""{,}"" )zchar[ 1] i8i8@lengthOf( // 50% %s
+uint8x
+) ,zchar[	00] a1,
+uint64
+    u , } 	 ")).
+Eval vm_compute in ("<<<M707>>>" ++ check (runes_of_ascii "packet u { i16 options1
+// @lengthOf(
+// a // b
+`u8 x,`
+,
+    }	MetaData
+pack	{// a // b
+string // packet A { u8 x, }
+int ,int8
+    calculatedFrom
+    , x_y_z zchar // packet A { u8 x, }
+, string
+    /// triple
+    uint8x `` ,	lengthOf  a1`" ++ [28040; 24687; 31867; 22411]%N ++ runes_of_ascii "` ,
+}")).
+Eval vm_compute in ("<<<M1154>>>" ++ check (runes_of_ascii "MetaData
+    Z9_ { u8x A , } MetaData As
+{ string zchar ,
+    trueish
+Pad  ,
+    uint16 o ,rootA
+// trailing space 
 // c
+falsey
+    ,
+    tag rootA,  } packet As{
+@lengthOf( string_)u8x
+    roots
+    `100% of %d`// `tick` ""quote"" 'q'
+,
+    }
+")).
+Eval vm_compute in ("<<<M639>>>" ++ check (runes_of_ascii "
+packet uint8x{ char[] a1@calculatedFrom(
+    """ ++ [28040; 24687]%N ++ runes_of_ascii """ )
+`tab	here` ,  } options {
+roots = ""a\""b""	BodyLength
+    = char[ 4294967296 ] i64_
+    =char[]; roots =
+false charz=
+// @lengthOf(
+// packet A { u8 x, }
+""it's""// " ++ [27880; 37322]%N ++ runes_of_ascii "
+; }
+// " ++ [128512]%N ++ runes_of_ascii " emoji
+")).
+Eval vm_compute in ("<<<M4132>>>" ++ check (runes_of_ascii "
+/// triple
+	options
+	{ 
+Logon	=""a	b""; }
+	options
+
+    { falsey=""" ++ [233]%N ++ runes_of_ascii "t" ++ [233]%N ++ runes_of_ascii """ ;u128 =' '  _x =//	t
+""" ++ [128512]%N ++ runes_of_ascii """
+	;  Foo
+=
+        // @lengthOf(
+
+	00	pack=
+' '	;
+    }
+    packet  i64_  {
+
+} 
+packet
+    As  {char 
+o
+@lengthOf(
+u  )
+	,}
+")).
+Eval vm_compute in ("<<<M309>>>" ++ check (runes_of_ascii "// 50% %s
+packet Logon { match charz as	uint8x
+    {7 :
+a1 ,"""" : Header , // " ++ [27880; 37322]%N ++ runes_of_ascii "
+""packet""
+    : rootA  ,
+    }, } packet o{ }options
+{// " ++ [128512]%N ++ runes_of_ascii " emoji
+} options  {Z9_
+=
+true
+    float=
+    char[]
+    As=1
+;// a // b
+}
+")).
+Eval vm_compute in ("<<<M3240>>>" ++ check (runes_of_ascii "// top
+MetaData // c0
+Foo // c1
+{ // c2
+zchar[ // c3
+0 // c4
+] // c5
+matchKey // c6
+, // c7
+} // c8
+options // c9
+{ // c10
+lengthOf // c11
+= // c12
+i32 // c13
+u // c14
+= // c15
+00 // c16
+; // c17
+} // c18
+")).
+Eval vm_compute in ("<<<M3589>>>" ++ check (runes_of_ascii "packet zchar {
+    stringy a1 `
+        `,
+    int16 falsey @lengthOf(MetaDataX) `say ""hi""`,
+    @lengthOf(zchar)
+    zchar[65535] _x `u8 x,`,
+    i64 Foo,
+}
+
+packet uint8x {
+}
+
+MetaData u8x {
+}")).
+Eval vm_compute in ("<<<M356>>>" ++ check (runes_of_ascii "packet
+// " ++ [128512]%N ++ runes_of_ascii " emoji
+//x
+leftPad {	} MetaData trueish  { i64_ roots// @lengthOf(
+,} root packet i8i8 { @leftPad ('0'
+) _x _x // " ++ [128512]%N ++ runes_of_ascii " emoji
+`` , // packet A { u8 x, }
+} // packet A { u8 x, }")).
+Eval vm_compute in ("<<<M1038>>>" ++ check (runes_of_ascii "
+MetaData
+    _x  {
+    char[ 10 // c
+] A, string
+    u128 ,  char[ 42 ] int, zchar[
+    65535 // 50% %s
+] MetaDataX ,
+char[
+    42
+] u
+    `line1
+line2` , }
+// @lengthOf(
+")).
+Eval vm_compute in ("<<<M4252>>>" ++ check (runes_of_ascii "options { metadata
+
+    =	'0' 
+} 
+options {
+u =1 ;	msg_type	=  string
+; As= 
+""{,}""
+; 
+i8i8=
+    string
+    ;
+
+    crc// `tick` ""quote"" 'q'
+    =char[
+4294967296 ]} ")).
+Eval vm_compute in ("<<<M1117>>>" ++ check (runes_of_ascii "packet Packet
+    {u32
+    a1 , @rightPad
+()
+    repeat i32 repeatCount , repeat i32 tag// packet A { u8 x, }
+, @lengthOf( Pad )  repeat // " ++ [128512]%N ++ runes_of_ascii " emoji
+matchKey , }")).
+Eval vm_compute in ("<<<M3725>>>" ++ check (runes_of_ascii "packet A {
+    match k as n {
+        ""%d%s"" : B,
+        [""%d%s"", 1] : C,
+        [
+            1, 2, 3, 4, 5,
+            ""%d%s""
+        ] : D,
+    },
+}")).
+Eval vm_compute in ("<<<M1620>>>" ++ check (runes_of_ascii "// 50% %s
+packet	a1
+    { zchar[
+// a // b
+// 50% %s
+007]
+T `it's`
+    ,@rightPad
+    // a // b
+    (
+'\x00')
+    o repeatCount , }  packet Logon {")).
+Eval vm_compute in ("<<<M2056>>>" ++ check (runes_of_ascii "MetaData BodyLength
+{ { int8 Foo
+, string
+    MetaDataX , float zchar ,pack options1
+,asx string_, }
+packet u8x {Foo@lengthOf(charz )
+`" ++ [28040; 24687; 31867; 22411]%N ++ runes_of_ascii "`,  }
+")).
+Eval vm_compute in ("<<<M2147>>>" ++ check (runes_of_ascii "MetaData BodyLength
+{ int8 Foo
+, string
+    MetaDataX , float zchar ,pack options1
+,asx string_, }
+packet { u8x Foo@lengthOf(charz )
+`" ++ [28040; 24687; 31867; 22411]%N ++ runes_of_ascii "`,  }
+")).
+Eval vm_compute in ("<<<M2103>>>" ++ check (runes_of_ascii "MetaData BodyLength
+{ int8 Foo
+, string
+    MetaDataX , float zchar ;pack options1
+,asx string_, }
+packet u8x {Foo@lengthOf(charz )
+`" ++ [28040; 24687; 31867; 22411]%N ++ runes_of_ascii "`,  }
+")).
+Eval vm_compute in ("<<<M2115>>>" ++ check (runes_of_ascii "MetaData BodyLength
+{ int8 Foo
+, string
+    MetaDataX , float zchar ,pack options1
+asx string_, }
+packet u8x {Foo@lengthOf(charz )
+`" ++ [28040; 24687; 31867; 22411]%N ++ runes_of_ascii "`,  }
+")).
+Eval vm_compute in ("<<<M854>>>" ++ check (runes_of_ascii "  MetaData
+    //	t
+    u8x
+    //	t
+    {u8x packetx `say ""hi""`, // trailing space 
+char[]
+options1
+`100% of %d`, char[ 00 ]	i64_ `" ++ [28040; 24687; 31867; 22411]%N ++ runes_of_ascii "` ,}")).
+Eval vm_compute in ("<<<M2264>>>" ++ check (runes_of_ascii "options
+    {
+x_y_z// " ++ [27880; 37322]%N ++ runes_of_ascii "
+= 10 ; }
+packet body {
+    @calculatedFrom(
+// trailing space 
+// " ++ [27880; 37322]%N ++ runes_of_ascii "
+""1"" ""1""
+)	match T as Foo
+    {
+255 :T , }
+,}")).
+Eval vm_compute in ("<<<M1937>>>" ++ check (runes_of_ascii "
+packet leftPad { {
+@leftPad( '0')
+u32
+i64_ `100% of %d` ,repeat// 50% %s
+i8 chars
+    ,
+} MetaData
+    f32a
+{ // packet A { u8 x, }
+}")).
+Eval vm_compute in ("<<<M2324>>>" ++ check (runes_of_ascii "options
+    {
+x_y_z// " ++ [27880; 37322]%N ++ runes_of_ascii "
+= 10 ; }
+packet body {
+    @calculatedFrom(
+// trailing space 
+// " ++ [27880; 37322]%N ++ runes_of_ascii "
+""1""
+)	match T as Foo
+    {
+255 :T , }
+, ,}")).
+Eval vm_compute in ("<<<M1929>>>" ++ check (runes_of_ascii "
+leftPad packet {
+@leftPad( '0')
+u32
+i64_ `100% of %d` ,repeat// 50% %s
+i8 chars
+    ,
+} MetaData
+    f32a
+{ // packet A { u8 x, }
+}")).
+Eval vm_compute in ("<<<M2230>>>" ++ check (runes_of_ascii "options
+    {
+x_y_z// " ++ [27880; 37322]%N ++ runes_of_ascii "
+= ; 10 }
+packet body {
+    @calculatedFrom(
+// trailing space 
+// " ++ [27880; 37322]%N ++ runes_of_ascii "
+""1""
+)	match T as Foo
+    {
+255 :T , }
+,}")).
+Eval vm_compute in ("<<<M1976>>>" ++ check (runes_of_ascii "
+packet leftPad {
+@leftPad( '0')
+u32
+i64_ `100% of %d` repeat// 50% %s
+i8 chars
+    ,
+} MetaData
+    f32a
+{ // packet A { u8 x, }
+}")).
+Eval vm_compute in ("<<<M574>>>" ++ check (runes_of_ascii "MetaData  options1{ float Packet
+    /// triple
+    ,string
+    zchar `// not a comment`	,
+char[ 4294967296// a // b
+] asx
+,  } // c")).
+Eval vm_compute in ("<<<M1984>>>" ++ check (runes_of_ascii "
+packet leftPad {
+@leftPad( '0')
+u32
+i64_ `100% of %d` ,(// 50% %s
+i8 chars
+    ,
+} MetaData
+    f32a
+{ // packet A { u8 x, }
+}")).
+Eval vm_compute in ("<<<M1247>>>" ++ check (runes_of_ascii "packet x_y_z{ int len `" ++ [233]%N ++ runes_of_ascii "`
+// " ++ [128512]%N ++ runes_of_ascii " emoji
+/// triple
+,
+}MetaData Logon {
+    //x
+    char
+    int // " ++ [27880; 37322]%N ++ runes_of_ascii "
+, f64 body
+, i64 falsey ,
+}")).
+Eval vm_compute in ("<<<M362>>>" ++ check (runes_of_ascii "
+MetaData tag
+{ f32 float , char[ 0123456789] a1 , len	metadata`line1
+line2` ,
+    char[]body ,matchKey A // 50% %s
+,
+    }
+")).
+Eval vm_compute in ("<<<M2422>>>" ++ check (runes_of_ascii "MetaData
+    calculatedFrom
+{ zchar[  10 ]
+    As`tab	here`,
+    }// trailing space 
+options  { roots ='\x00' ; }  A
+{ }
+")).
+Eval vm_compute in ("<<<M2431>>>" ++ check (runes_of_ascii "MetaData
+    calculatedFrom
+{ zchar[  10 ]
+    As,
+    }// trailing space 
+options  { roots ='\x00' ; } packet A
+{ }
+")).
+Eval vm_compute in ("<<<M1904>>>" ++ check (runes_of_ascii "packet o {
+    roots `it's`
+// trailing space 
+//x
+, char[ 42
+    ]  A, // " ++ [27880; 37322]%N ++ runes_of_ascii "
+f64
+repeatCount
+    `crlf
+line`
+,i64")).
+Eval vm_compute in ("<<<M1100>>>" ++ check (runes_of_ascii "options {
+// packet A { u8 x, }
+// a // b
+u128
+=""1"" uint8x= i64 ; stringy = 00 chars// @lengthOf(
+=  char[ 00 ]}
+")).
+Eval vm_compute in ("<<<M1877>>>" ++ check (runes_of_ascii "packet o {
+    roots `it's`
+// trailing space 
+//x
+, char[ 42
+    ]  A // " ++ [27880; 37322]%N ++ runes_of_ascii "
+f64
+repeatCount
+    `crlf
+line`
+,}")).
+Eval vm_compute in ("<<<M1901>>>" ++ check (runes_of_ascii "packet o {
+    roots `it's`
+// trailing space 
+//x
+, char[ 42
+    ]  A, // " ++ [27880; 37322]%N ++ runes_of_ascii "
+f64
+repeatCount
+    `crlf
+line`")).
+Eval vm_compute in ("<<<M1847>>>" ++ check (runes_of_ascii "packet o {
+    roots 
+// trailing space 
+//x
+, char[ 42
+    ]  A, // " ++ [27880; 37322]%N ++ runes_of_ascii "
+f64
+repeatCount
+    `crlf
+line`
+,}")).
+Eval vm_compute in ("<<<M2282>>>" ++ check (runes_of_ascii "options
+    {
+x_y_z// " ++ [27880; 37322]%N ++ runes_of_ascii "
+= 10 ; }
+packet body {
+    @calculatedFrom(
+// trailing space 
+// " ++ [27880; 37322]%N ++ runes_of_ascii "
+""1""
+)	match")).
+Eval vm_compute in ("<<<M1433>>>" ++ check (runes_of_ascii "packet
+T
+{ match repeatCount repeatCount as	calculatedFrom
+{ [65535 ]	: As	,
+} ,}
+// trailing space 
+")).
+Eval vm_compute in ("<<<M2277>>>" ++ check (runes_of_ascii "options
+    {
+x_y_z// " ++ [27880; 37322]%N ++ runes_of_ascii "
+= 10 ; }
+packet body {
+    @calculatedFrom(
+// trailing space 
+// " ++ [27880; 37322]%N ++ runes_of_ascii "
+""1""
+)")).
+Eval vm_compute in ("<<<M1428>>>" ++ check (runes_of_ascii "packet
+T
+{ match match repeatCount as	calculatedFrom
+{ [65535 ]	: As	,
+} ,}
+// trailing space 
+")).
+Eval vm_compute in ("<<<M549>>>" ++ check (runes_of_ascii "root packet
+    a1
+{
+    @tag( 0 )
+    @leftPad	('0'
+)uint16 msg_type// trailing space 
+, }
+")).
+Eval vm_compute in ("<<<M259>>>" ++ check (runes_of_ascii "options
+    {Header// trailing space 
+= """ ++ [233]%N ++ runes_of_ascii "t" ++ [233]%N ++ runes_of_ascii """ ; Z9_= true //x
+; options1= int8
+    ; //	t
+}")).
+Eval vm_compute in ("<<<M1416>>>" ++ check (runes_of_ascii "options
+T
+{ match repeatCount as	calculatedFrom
+{ [65535 ]	: As	,
+} ,}
+// trailing space 
+")).
+Eval vm_compute in ("<<<M1450>>>" ++ check (runes_of_ascii "packet
+T
+{ match repeatCount as	calculatedFrom
+[ [65535 ]	: As	,
+} ,}
+// trailing space 
+")).
+Eval vm_compute in ("<<<M1467>>>" ++ check (runes_of_ascii "packet
+T
+{ match repeatCount as	calculatedFrom
+{ [65535 ]	 As	,
+} ,}
+// trailing space 
+")).
+Eval vm_compute in ("<<<M1390>>>" ++ check (runes_of_ascii "MetaData Logon// " ++ [128512]%N ++ runes_of_ascii " emoji
+{pack body
+//
+//
+`say ""hi""`
+,}/// triple
+packet MetaDataX { }")).
+Eval vm_compute in ("<<<M1806>>>" ++ check (runes_of_ascii "options{  lengthOf =//x
+i16;
+    BodyLength = 0 ; pack
+= false;
+    A = char[ 3 ] } }")).
+Eval vm_compute in ("<<<M4127>>>" ++ check (runes_of_ascii "MetaData
+
+packetx  {	zchar
+    T , u128 x ,
+	}  options// `tick` ""quote"" 'q'
+  {
+	}
+
+")).
+Eval vm_compute in ("<<<M3579>>>" ++ check (runes_of_ascii "options {
+    lengthOf = i16;
+    BodyLength = 0;
+    pack = false
+    A = char[3]
+}")).
+Eval vm_compute in ("<<<M1808>>>" ++ check (runes_of_ascii "options{  lengthOf =//x
+i16;
+    BodyLength = 0 ; pack
+= false;
+    A = char[ 3 ]")).
+Eval vm_compute in ("<<<M3210>>>" ++ check (runes_of_ascii "packet A { u16 // a
+ len // b
+ @lengthOf( // c
+ body // d
+ ) // e
+ `d` // f
+ , }")).
+Eval vm_compute in ("<<<M3252>>>" ++ check (runes_of_ascii "MetaData Foo { zchar[
+// c
+0 ] matchKey , } options { lengthOf = i32 u = 00 ; }")).
+Eval vm_compute in ("<<<M4450>>>" ++ check (runes_of_ascii "options {
+    crc = 00;
+    Packet = uint32;
+    MetaDataX = '\x00';
+}// a // b")).
+Eval vm_compute in ("<<<M3852>>>" ++ check (runes_of_ascii "
+root
+
+    packet
+A
+
+{	int64 
+Z9_ 
+``
+	,
+
+    }	// `tick` ""quote"" 'q'
+")).
+Eval vm_compute in ("<<<M2917>>>" ++ check (runes_of_ascii "packet A {
+  match k as n {
+    [1, 22, ""c c"", 4, 5] : B
+    2 : C
+  },
+}")).
+Eval vm_compute in ("<<<M2909>>>" ++ check (runes_of_ascii "packet A {
+  match k as n {
+    [1, 22, 007, 4, 5] : B
+    2 : C
+  },
+}")).
+Eval vm_compute in ("<<<M3995>>>" ++ check (runes_of_ascii "root 
+packet
+
+    u128	{
+	@tag( 7
+
+    )
+
+matchKey	pack
+    ,
+}
+
+")).
+Eval vm_compute in ("<<<M942>>>" ++ check (runes_of_ascii "packet
+x_y_z{ match
+Header as MetaDataX {
+    ""x y""
+: float ,} ,}")).
+Eval vm_compute in ("<<<M1784>>>" ++ check (runes_of_ascii "options{  lengthOf =//x
+i16;
+    BodyLength = 0 ; pack
+= false;")).
+Eval vm_compute in ("<<<M4100>>>" ++ check (runes_of_ascii "packet u8x {
+}// c
+
+MetaData crc {
+    char[4294967296] Foo,
+}")).
+Eval vm_compute in ("<<<M3308>>>" ++ check (runes_of_ascii "packet u8x { } MetaData crc { char[ 4294967296
+// c
+] Foo , }")).
+Eval vm_compute in ("<<<M2870>>>" ++ check (runes_of_ascii "packet A {
+  match k as n {
+    [""a""] : B,
+    2 : C
+  },
+}")).
+Eval vm_compute in ("<<<M2894>>>" ++ check (runes_of_ascii "packet A { Inner { match k as n { [1,22,007] : B, }, }, }")).
+Eval vm_compute in ("<<<M1769>>>" ++ check (runes_of_ascii "options{  lengthOf =//x
+i16;
+    BodyLength = 0 ; pack")).
+Eval vm_compute in ("<<<M2725>>>" ++ check (runes_of_ascii "( u64 } int64 : root uint64 @lengthOf( root { u64 [")).
+Eval vm_compute in ("<<<M562>>>" ++ check (runes_of_ascii "packet
+x_y_z {As @lengthOf(repeatCount
+    ) ,}
+")).
+Eval vm_compute in ("<<<M4399>>>" ++ check (runes_of_ascii "root packet u128 {
+    // c
+    chars `doc`,
+}")).
+Eval vm_compute in ("<<<M803>>>" ++ check (runes_of_ascii "
+packet crc{ charz @lengthOf( Header )
 , }")).
-Eval vm_compute in ("<<<M2091>>>" ++ check (runes_of_ascii "
-
-  packet o{
-
-    } // " ++ [128512]%N ++ runes_of_ascii " emoji
- 
-")).
-Eval vm_compute in ("<<<M1979>>>" ++ check (runes_of_ascii "packet A {
-    u8 x `d" ++ [6158]%N ++ runes_of_ascii "`,// c" ++ [6158]%N ++ runes_of_ascii "
+Eval vm_compute in ("<<<M1145>>>" ++ check (runes_of_ascii "
+options { u128 =
+    char[]; } // a // b")).
+Eval vm_compute in ("<<<M3679>>>" ++ check (runes_of_ascii "root packet A {
+    u8 x `x
+        `,
 }")).
-Eval vm_compute in ("<<<M918>>>" ++ check (runes_of_ascii "packet A {
+Eval vm_compute in ("<<<M3954>>>" ++ check (runes_of_ascii "packet A
+    {
+
+u8 x `a
+    b
+  c` ,}
+
+")).
+Eval vm_compute in ("<<<M2394>>>" ++ check (runes_of_ascii "MetaData
+Foo {Header //
+pack ,	} 	 | ")).
+Eval vm_compute in ("<<<M2867>>>" ++ check (runes_of_ascii "A" ++ [65533; 22]%N ++ runes_of_ascii "E" ++ [6]%N ++ runes_of_ascii "Q~" ++ [65533; 14; 65533]%N ++ runes_of_ascii "eu" ++ [6]%N ++ runes_of_ascii "x," ++ [65533]%N ++ runes_of_ascii "T" ++ [65533; 20]%N ++ runes_of_ascii "C" ++ [8; 65533; 18]%N ++ runes_of_ascii "c" ++ [65533]%N ++ runes_of_ascii "e" ++ [65533]%N ++ runes_of_ascii "i" ++ [17; 65533]%N ++ runes_of_ascii """" ++ [65533; 19]%N ++ runes_of_ascii "}8" ++ [65533]%N)).
+Eval vm_compute in ("<<<M3900>>>" ++ check (runes_of_ascii "packet packetx {
+    packetx asx,
+}")).
+Eval vm_compute in ("<<<M2659>>>" ++ check (runes_of_ascii "MetaData M { u8 x @lengthOf(y), }")).
+Eval vm_compute in ("<<<M4050>>>" ++ check (runes_of_ascii "packet A {
+    u8 x `d" ++ [8192]%N ++ runes_of_ascii "`,// c" ++ [8192]%N ++ runes_of_ascii "
+}")).
+Eval vm_compute in ("<<<M2610>>>" ++ check (runes_of_ascii "packet A { match k as n { }, }")).
+Eval vm_compute in ("<<<M3018>>>" ++ check (runes_of_ascii "packet A {
     u8 x `a
 b`,
 }")).
-Eval vm_compute in ("<<<M1165>>>" ++ check (runes_of_ascii "root // c
-packet pack { }")).
-Eval vm_compute in ("<<<M1829>>>" ++ check (runes_of_ascii "
-packet i64_
-	{	}
-
+Eval vm_compute in ("<<<M3346>>>" ++ check (runes_of_ascii "options { u8x = // c
+false }")).
+Eval vm_compute in ("<<<M917>>>" ++ check (runes_of_ascii "MetaData uint8x {
+} // " ++ [27880; 37322]%N)).
+Eval vm_compute in ("<<<M3777>>>" ++ check (runes_of_ascii "root packet rootA {
+}// c")).
+Eval vm_compute in ("<<<M2600>>>" ++ check (runes_of_ascii "packet A { x @tag(1), }")).
+Eval vm_compute in ("<<<M847>>>" ++ check (runes_of_ascii "options{ tag= i32; }
 ")).
-Eval vm_compute in ("<<<M1002>>>" ++ check (runes_of_ascii "// c" ++ [8202]%N ++ runes_of_ascii "
-packet A {
+Eval vm_compute in ("<<<M3600>>>" ++ check (runes_of_ascii "options {
+    // a
 }")).
-Eval vm_compute in ("<<<M994>>>" ++ check (runes_of_ascii "packet A {
-}// c" ++ [8192]%N)).
-Eval vm_compute in ("<<<M308>>>" ++ check (runes_of_ascii "options{
+Eval vm_compute in ("<<<M4276>>>" ++ check (runes_of_ascii "packet metadata {
 }")).
-Eval vm_compute in ("<<<M1000>>>" ++ check (runes_of_ascii "// c" ++ [8202]%N)).
+Eval vm_compute in ("<<<M3137>>>" ++ check (runes_of_ascii "packet A {
+}
+// c" ++ [8239]%N)).
+Eval vm_compute in ("<<<M2654>>>" ++ check (runes_of_ascii "MetaData M { x, }")).
+Eval vm_compute in ("<<<M1525>>>" ++ check (runes_of_ascii "// 50% %s
+packet")).
+Eval vm_compute in ("<<<M798>>>" ++ check (runes_of_ascii "packet crc {}
+")).
+Eval vm_compute in ("<<<M2560>>>" ++ check ([65279]%N ++ runes_of_ascii "packet A {}")).
+Eval vm_compute in ("<<<M2805>>>" ++ check (runes_of_ascii "<7|}ru[t;i")).
+Eval vm_compute in ("<<<M2442>>>" ++ check (runes_of_ascii "zchar [")).
+Eval vm_compute in ("<<<M2731>>>" ++ check (runes_of_ascii "A7QC4#")).
+Eval vm_compute in ("<<<M2813>>>" ++ check (runes_of_ascii "l:~DC")).
+Eval vm_compute in ("<<<M2523>>>" ++ check (runes_of_ascii """\\""")).
+Eval vm_compute in ("<<<M2532>>>" ++ check (runes_of_ascii "`""`")).
+Eval vm_compute in ("<<<M2538>>>" ++ check (runes_of_ascii "-1")).
